@@ -1,11 +1,1844 @@
-import NimaVerif.Model.Trivia
-/-! Lemmas about the trivia algebra (L2). -/
+import NimaVerif.Model.TriviaSpec
+/-! Lemmas about the trivia algebra (L2): blank-line detection, canonical gaps, separators,
+`format_trivia` as a flatMap, pieces, comment rendering. Core Lean only. -/
 namespace Nima
 
 @[simp] theorem spaces_zero : spaces 0 = [] := rfl
 theorem spaces_succ (n : Nat) : spaces (n + 1) = ' ' :: spaces n := rfl
+@[simp] theorem length_spaces (n : Nat) : (spaces n).length = n := by simp [spaces]
+theorem mem_spaces {c : Char} {n : Nat} (h : c ∈ spaces n) : c = ' ' := by
+  simp [spaces] at h; exact h.2
 
 theorem containsNL_append (a b : Text) : containsNL (a ++ b) = (containsNL a || containsNL b) := by
   simp [containsNL]
+@[simp] theorem containsNL_nil : containsNL [] = false := rfl
+theorem containsNL_cons (c : Char) (s : Text) : containsNL (c :: s) = (c == '\n' || containsNL s) := by
+  by_cases h : c = '\n'
+  · subst h; simp [containsNL]
+  · have h' := Ne.symm h; simp [containsNL, h, h']
+@[simp] theorem containsNL_spaces (n : Nat) : containsNL (spaces n) = false := by
+  induction n with
+  | zero => rfl
+  | succ n ih => rw [spaces_succ, containsNL_cons, ih]; decide
+theorem containsNL_iff (s : Text) : containsNL s = true ↔ '\n' ∈ s := by simp [containsNL]
+theorem containsNL_false_iff (s : Text) : containsNL s = false ↔ '\n' ∉ s := by simp [containsNL]
+
+/-! ### blank-line detection -/
+
+theorem hasEmptyLineRe_cons_ne {c : Char} (h : c ≠ '\n') (cs : Text) :
+    hasEmptyLineRe (c :: cs) = hasEmptyLineRe cs := by
+  simp [hasEmptyLineRe, h]
+
+theorem hasEmptyLineRe_nl (cs : Text) :
+    hasEmptyLineRe ('\n' :: cs) = ((cs.dropWhile isGapBlank).head? == some '\n' || hasEmptyLineRe cs) := by
+  simp [hasEmptyLineRe]
+
+theorem hasEmptyLineRe_dropWhile (p : Char → Bool) (hp : ∀ c, p c = true → c ≠ '\n') (s : Text) :
+    hasEmptyLineRe (s.dropWhile p) = hasEmptyLineRe s := by
+  induction s with
+  | nil => rfl
+  | cons c cs ih =>
+    by_cases h : p c = true
+    · rw [List.dropWhile_cons_of_pos h, ih, hasEmptyLineRe_cons_ne (hp c h)]
+    · rw [List.dropWhile_cons_of_neg h]
+
+theorem isGapBlank_ne_nl (c : Char) (h : isGapBlank c = true) : c ≠ '\n' := by
+  intro hc; subst hc; simp [isGapBlank] at h
+
+theorem hasEmptyLineRe_count : ∀ (s : Text), hasEmptyLineRe s = true → 2 ≤ s.count '\n'
+  | [], h => by simp [hasEmptyLineRe] at h
+  | c :: cs, h => by
+    by_cases hc : c = '\n'
+    · subst hc
+      rw [hasEmptyLineRe_nl] at h
+      simp only [Bool.or_eq_true] at h
+      rcases h with h | h
+      · have : '\n' ∈ cs := by
+          have h1 : (cs.dropWhile isGapBlank).head? = some '\n' := by simpa using h
+          have h2 : '\n' ∈ cs.dropWhile isGapBlank := List.mem_of_head? h1
+          exact (List.dropWhile_sublist _).subset h2
+        have : 0 < cs.count '\n' := List.count_pos_iff.mpr this
+        rw [List.count_cons_self]; omega
+      · have := hasEmptyLineRe_count cs h
+        rw [List.count_cons_self]; omega
+    · rw [hasEmptyLineRe_cons_ne hc] at h
+      have := hasEmptyLineRe_count cs h
+      rw [List.count_cons_of_ne hc]; exact this
+
+theorem gapHasEmptyLine_eq_re (g : Text) : gapHasEmptyLine g = hasEmptyLineRe g := by
+  unfold gapHasEmptyLine
+  cases h : hasEmptyLineRe g
+  · simp
+  · have h2 := hasEmptyLineRe_count g h
+    have h3 : containsNL g = true := by
+      rw [containsNL_iff]; exact List.count_pos_iff.mp (by omega)
+    simp [h3]; omega
+
+theorem head_dropWhile_ne_nl (s : Text) (x : Char) (more : Text)
+    (h : s.dropWhile (· != '\n') = x :: more) : x = '\n' := by
+  have := List.head_dropWhile_not (· != '\n') (l := s) (by rw [h]; simp)
+  simpa [h] using this
+
+theorem emptyLineScan_eq : ∀ (fuel : Nat) (s : Text), s.length < fuel →
+    emptyLineScan fuel s = hasEmptyLineRe ('\n' :: s)
+  | 0, s, h => by omega
+  | fuel + 1, s, h => by
+    rw [hasEmptyLineRe_nl, emptyLineScan]
+    have hre : hasEmptyLineRe s = hasEmptyLineRe (s.dropWhile isGapBlank) :=
+      (hasEmptyLineRe_dropWhile _ isGapBlank_ne_nl s).symm
+    have hlen : (s.dropWhile isGapBlank).length ≤ s.length := (List.dropWhile_sublist _).length_le
+    rw [hre]
+    generalize s.dropWhile isGapBlank = rest at hlen ⊢
+    cases rest with
+    | nil => simp [hasEmptyLineRe]
+    | cons c r =>
+      by_cases hc : c = '\n'
+      · subst hc; simp
+      · have hb : ((c :: r).head? == some '\n') = false := by simp [hc]
+        rw [hb, Bool.false_or]
+        simp only [if_neg hc]
+        have h1 : hasEmptyLineRe (c :: r) = hasEmptyLineRe ((c :: r).dropWhile (· != '\n')) :=
+          (hasEmptyLineRe_dropWhile _ (by intro c h; simpa using h) _).symm
+        have hlen2 : ((c :: r).dropWhile (· != '\n')).length ≤ (c :: r).length :=
+          (List.dropWhile_sublist _).length_le
+        rw [h1]
+        cases hafter : (c :: r).dropWhile (· != '\n') with
+        | nil => simp [hasEmptyLineRe]
+        | cons x more =>
+          have hx := head_dropWhile_ne_nl _ _ _ hafter
+          subst hx
+          rw [hafter] at hlen2
+          simp only [List.length_cons] at hlen2 hlen
+          exact emptyLineScan_eq fuel more (by omega)
+
+
+theorem gapHasEmptyLineOffsets_eq_re (g : Text) : gapHasEmptyLineOffsets g = hasEmptyLineRe g := by
+  unfold gapHasEmptyLineOffsets
+  have h1 : hasEmptyLineRe g = hasEmptyLineRe (g.dropWhile (· != '\n')) :=
+    (hasEmptyLineRe_dropWhile _ (by intro c h; simpa using h) _).symm
+  have hlen : (g.dropWhile (· != '\n')).length ≤ g.length := (List.dropWhile_sublist _).length_le
+  rw [h1]
+  cases hafter : g.dropWhile (· != '\n') with
+  | nil => simp [hasEmptyLineRe]
+  | cons x rest =>
+    have hx := head_dropWhile_ne_nl _ _ _ hafter
+    subst hx
+    rw [hafter] at hlen
+    simp only [List.length_cons] at hlen
+    by_cases hc : rest.contains '\n' = true
+    · simp only [hc, Bool.not_true, Bool.false_eq_true, if_false]
+      exact emptyLineScan_eq _ _ (by omega)
+    · simp only [hc, Bool.not_false, if_true]
+      cases hre : hasEmptyLineRe ('\n' :: rest) with
+      | false => rfl
+      | true =>
+        have := hasEmptyLineRe_count _ hre
+        rw [List.count_cons_self] at this
+        have : '\n' ∈ rest := List.count_pos_iff.mp (by omega)
+        simp at hc; exact absurd this hc
+
+theorem takeWhile_all (p : Char → Bool) : ∀ (l : Text), ∀ c ∈ l.takeWhile p, p c = true
+  | [], c, h => by simp at h
+  | x :: l, c, h => by
+    by_cases hx : p x = true
+    · rw [List.takeWhile_cons_of_pos hx] at h
+      rcases List.mem_cons.mp h with rfl | h
+      · exact hx
+      · exact takeWhile_all p l c h
+    · rw [List.takeWhile_cons_of_neg hx] at h; simp at h
+
+/-- The model of the regex `\n[ \t]*\n` has the regex's meaning. -/
+theorem hasEmptyLineRe_iff (s : Text) :
+    hasEmptyLineRe s = true ↔
+      ∃ a b m : Text, (∀ c ∈ b, isGapBlank c = true) ∧ s = a ++ '\n' :: b ++ '\n' :: m := by
+  induction s with
+  | nil => simp [hasEmptyLineRe]
+  | cons c cs ih =>
+    constructor
+    · intro h
+      by_cases hc : c = '\n'
+      · subst hc
+        rw [hasEmptyLineRe_nl, Bool.or_eq_true] at h
+        rcases h with h | h
+        · have h1 : (cs.dropWhile isGapBlank).head? = some '\n' := by simpa using h
+          refine ⟨[], cs.takeWhile isGapBlank, (cs.dropWhile isGapBlank).tail, ?_, ?_⟩
+          · intro c hc; exact takeWhile_all _ _ c hc
+          · have : cs.dropWhile isGapBlank = '\n' :: (cs.dropWhile isGapBlank).tail := by
+              cases hd : cs.dropWhile isGapBlank with
+              | nil => rw [hd] at h1; simp at h1
+              | cons x r => rw [hd] at h1; simp at h1; simp [h1]
+            rw [← this]; simp
+        · obtain ⟨a, b, m, hb, rfl⟩ := ih.mp h
+          exact ⟨'\n' :: a, b, m, hb, rfl⟩
+      · rw [hasEmptyLineRe_cons_ne hc] at h
+        obtain ⟨a, b, m, hb, rfl⟩ := ih.mp h
+        exact ⟨c :: a, b, m, hb, rfl⟩
+    · rintro ⟨a, b, m, hb, h⟩
+      cases a with
+      | nil =>
+        simp only [List.nil_append] at h
+        obtain ⟨rfl, rfl⟩ := h
+        rw [hasEmptyLineRe_nl]
+        have : (b ++ '\n' :: m).dropWhile isGapBlank = '\n' :: m := by
+          rw [List.dropWhile_append_of_pos hb]; simp [isGapBlank]
+        simp [this]
+      | cons x a =>
+        simp only [List.cons_append, List.cons.injEq] at h
+        obtain ⟨rfl, rfl⟩ := h
+        have : hasEmptyLineRe (a ++ '\n' :: b ++ '\n' :: m) = true := ih.mpr ⟨a, b, m, hb, by simp⟩
+        by_cases hc : c = '\n'
+        · subst hc; rw [hasEmptyLineRe_nl]; simp at this; simp [this]
+        · rw [hasEmptyLineRe_cons_ne hc]; simpa using this
+
+/-! ### canonical gaps -/
+
+theorem hasEmptyLineRe_spaces (k : Nat) : hasEmptyLineRe (spaces k) = false := by
+  induction k with
+  | zero => rfl
+  | succ k ih => rw [spaces_succ, hasEmptyLineRe_cons_ne (by decide), ih]
+
+theorem dropWhile_blank_spaces (k : Nat) : (spaces k).dropWhile isGapBlank = [] := by
+  induction k with
+  | zero => rfl
+  | succ k ih => rw [spaces_succ, List.dropWhile_cons_of_pos (by decide), ih]
+
+theorem gapHasEmptyLine_nl_spaces (k : Nat) : gapHasEmptyLine ('\n' :: spaces k) = false := by
+  rw [gapHasEmptyLine_eq_re, hasEmptyLineRe_nl, dropWhile_blank_spaces, hasEmptyLineRe_spaces]; rfl
+
+theorem gapHasEmptyLine_nlnl_spaces (k : Nat) : gapHasEmptyLine ('\n' :: '\n' :: spaces k) = true := by
+  rw [gapHasEmptyLine_eq_re, hasEmptyLineRe_nl]; simp [isGapBlank]
+
+theorem takeWhile_ne_nl_spaces (k : Nat) : (spaces k).takeWhile (· != '\n') = spaces k := by
+  induction k with
+  | zero => rfl
+  | succ k ih => rw [spaces_succ, List.takeWhile_cons_of_pos (by decide), ih]
+
+theorem indentFromGap_of_suffix (a : Text) (k : Nat) : indentFromGap (a ++ '\n' :: spaces k) = k := by
+  have hc : containsNL (a ++ '\n' :: spaces k) = true := by
+    rw [containsNL_append, containsNL_cons]; simp
+  unfold indentFromGap
+  simp only [hc, Bool.not_true, Bool.false_eq_true, if_false]
+  have : (a ++ '\n' :: spaces k).reverse = spaces k ++ '\n' :: a.reverse := by
+    simp [spaces]
+  rw [this, List.takeWhile_append_of_pos (by intro c hc; rw [mem_spaces hc]; decide)]
+  simp
+
+theorem indentFromGap_nl_spaces (k : Nat) : indentFromGap ('\n' :: spaces k) = k :=
+  indentFromGap_of_suffix [] k
+theorem indentFromGap_nlnl_spaces (k : Nat) : indentFromGap ('\n' :: '\n' :: spaces k) = k :=
+  indentFromGap_of_suffix ['\n'] k
+
+theorem fromGap_nl_spaces (k : Nat) :
+    Layout.fromGap ('\n' :: spaces k) = { onNewline := true, blankLine := false, indent := some k } := by
+  simp [Layout.fromGap, containsNL_cons, gapHasEmptyLine_nl_spaces, indentFromGap_nl_spaces]
+
+theorem fromGap_nlnl_spaces (k : Nat) :
+    Layout.fromGap ('\n' :: '\n' :: spaces k) = { onNewline := true, blankLine := true, indent := some k } := by
+  simp [Layout.fromGap, containsNL_cons, gapHasEmptyLine_nlnl_spaces, indentFromGap_nlnl_spaces]
+
+theorem fromGap_no_nl (g : Text) (h : containsNL g = false) : Layout.fromGap g = {} := by
+  simp [Layout.fromGap, h]
+
+
+/-! ### NormalSep -/
+
+theorem all_eq_spaces : ∀ (r : Text), r.all (· == ' ') = true → r = spaces r.length
+  | [], _ => rfl
+  | c :: r, h => by
+    simp only [List.all_cons, Bool.and_eq_true, beq_iff_eq] at h
+    rw [List.length_cons, spaces_succ, h.1, ← all_eq_spaces r h.2]
+
+theorem all_spaces (k : Nat) : (spaces k).all (· == ' ') = true := by
+  simp [spaces]
+
+theorem normalSep_iff (s : Text) : NormalSep s ↔ isNormalSep s = true := by
+  constructor
+  · rintro (rfl | rfl | ⟨k, rfl | rfl⟩)
+    · rfl
+    · rfl
+    · cases k with
+      | zero => rfl
+      | succ k => rw [spaces_succ]; simp [isNormalSep, all_spaces]
+    · simp [isNormalSep, all_spaces]
+  · intro h
+    unfold isNormalSep at h
+    split at h
+    · exact Or.inl rfl
+    · exact Or.inr (Or.inl rfl)
+    · exact Or.inr (Or.inr ⟨_, Or.inr (by rw [← all_eq_spaces _ h])⟩)
+    · exact Or.inr (Or.inr ⟨_, Or.inl (by rw [← all_eq_spaces _ h])⟩)
+    · simp at h
+
+instance (s : Text) : Decidable (NormalSep s) := decidable_of_iff _ (normalSep_iff s).symm
+
+theorem count_nl_spaces (k : Nat) : (spaces k).count '\n' = 0 := by
+  rw [List.count_eq_zero]; intro h; exact absurd (mem_spaces h) (by decide)
+
+/-! ### format_trivia -/
+
+theorem formatTriviaGo_flatMap (i : Nat) : ∀ (ts : List Trivia) (acc : Text) (e : Bool), CommaFree ts →
+    formatTriviaGo i ts acc e = acc ++ ts.flatMap (itemText i)
+  | [], acc, e, _ => by simp [formatTriviaGo]
+  | .emptyLine :: rest, acc, e, h => by
+    rw [formatTriviaGo, formatTriviaGo_flatMap i rest _ _ (fun hm => h (List.mem_cons_of_mem _ hm))]
+    simp [itemText]
+  | .linebreak :: rest, acc, e, h => by
+    rw [formatTriviaGo, formatTriviaGo_flatMap i rest _ _ (fun hm => h (List.mem_cons_of_mem _ hm))]
+    simp [itemText]
+  | .comma :: rest, acc, e, h => absurd (List.mem_cons_self) h
+  | .comment c :: rest, acc, e, h => by
+    rw [formatTriviaGo, formatTriviaGo_flatMap i rest _ _ (fun hm => h (List.mem_cons_of_mem _ hm))]
+    simp [itemText]
+
+theorem formatTrivia_eq_flatMap (ts : List Trivia) (i : Nat) (h : CommaFree ts) :
+    formatTrivia ts i = ts.flatMap (itemText i) := by
+  rw [formatTrivia, formatTriviaGo_flatMap i ts [] true h]; rfl
+
+theorem commaFree_cons {t : Trivia} {ts : List Trivia} (h : CommaFree (t :: ts)) : CommaFree ts :=
+  fun hm => h (List.mem_cons_of_mem _ hm)
+theorem commaFree_append {a b : List Trivia} : CommaFree (a ++ b) ↔ CommaFree a ∧ CommaFree b := by
+  simp [CommaFree, List.mem_append, not_or]
+
+/-! ### comment rendering -/
+
+theorem blockFold_eq (k : Nat) : ∀ (l : List Text) (init : Text),
+    l.foldl (fun acc ln => if ln.isEmpty then acc ++ ['\n'] else acc ++ '\n' :: spaces k ++ ln) init
+      = init ++ l.flatMap (fun ln => if ln.isEmpty then ['\n'] else '\n' :: spaces k ++ ln)
+  | [], init => by simp
+  | ln :: l, init => by
+    rw [List.foldl_cons, blockFold_eq k l]
+    cases ln with
+    | nil => simp
+    | cons x xs => simp
+
+theorem rebuild_eq_token (c : Comment) (i : Nat) :
+    c.rebuild i = spaces (c.effIndent i) ++ c.token (c.effIndent i) := by
+  unfold Comment.rebuild Comment.token Comment.effIndent
+  cases c.kind with
+  | line => rfl
+  | block doc inner =>
+    simp only [blockFold_eq]
+    split <;> split <;> split <;> simp [List.append_assoc]
+
+theorem rebuild_inline (c : Comment) (i : Nat) (h : c.inline = true) : c.rebuild i = c.rebuild 0 := by
+  simp [Comment.rebuild, h]
+
+
+/-! ### pieces -/
+
+theorem piecesText_append (a b : List Piece) : piecesText (a ++ b) = piecesText a ++ piecesText b := by
+  simp [piecesText]
+
+theorem piecesText_itemPieces (i : Nat) (t : Trivia) : piecesText (itemPieces i t) = itemText i t := by
+  cases t <;> simp [piecesText, itemPieces, itemText, Piece.text, rebuild_eq_token]
+
+theorem piecesText_triviaPieces (i : Nat) (ts : List Trivia) :
+    piecesText (triviaPieces i ts) = ts.flatMap (itemText i) := by
+  induction ts with
+  | nil => rfl
+  | cons t ts ih =>
+    simp only [triviaPieces, List.flatMap_cons] at ih ⊢
+    rw [piecesText_append, piecesText_itemPieces, ih]
+
+/-- every comment piece is directly followed by a line-break piece -/
+def cmtClosed : List Piece → Bool
+  | [] => true
+  | .cmt _ :: .ws ['\n'] :: r => cmtClosed r
+  | .cmt _ :: _ => false
+  | .ws _ :: r => cmtClosed r
+
+theorem cmtClosed_spec : ∀ (n : Nat) (pre : List Piece) (ps : List Piece) (b : Text) (post : List Piece),
+    pre.length ≤ n → cmtClosed ps = true → ps = pre ++ .cmt b :: post → ∃ post', post = .ws ['\n'] :: post'
+  | n, [], ps, b, post, _, hc, he => by
+    subst he
+    simp only [List.nil_append] at hc
+    unfold cmtClosed at hc
+    split at hc
+    · simp_all
+    · simp_all
+    · simp at hc
+    · simp_all
+  | 0, p :: pre, _, _, _, hn, _, _ => by simp at hn
+  | n + 1, .ws s :: pre, ps, b, post, hn, hc, he => by
+    subst he
+    simp only [List.cons_append, cmtClosed] at hc
+    exact cmtClosed_spec n pre _ b post (by simp at hn; omega) hc rfl
+  | n + 1, .cmt s :: pre, ps, b, post, hn, hc, he => by
+    subst he
+    simp only [List.cons_append] at hc
+    cases pre with
+    | nil => simp [cmtClosed] at hc
+    | cons q pre' =>
+      cases q with
+      | cmt s' => simp [cmtClosed] at hc
+      | ws s' =>
+        simp only [List.cons_append] at hc
+        by_cases hs : s' = ['\n']
+        · subst hs
+          simp only [cmtClosed] at hc
+          exact cmtClosed_spec n pre' _ b post (by simp at hn; omega) hc rfl
+        · unfold cmtClosed at hc
+          split at hc <;> simp_all
+
+theorem cmtClosed_append : ∀ (a b : List Piece), cmtClosed a = true → cmtClosed b = true →
+    cmtClosed (a ++ b) = true := by
+  intro a
+  fun_induction cmtClosed a <;> intro b ha hb
+  · simpa using hb
+  · simp only [List.cons_append, cmtClosed]; rename_i ih; exact ih b ha hb
+  · simp at ha
+  · simp only [List.cons_append, cmtClosed]; rename_i ih; exact ih b ha hb
+
+theorem cmtClosed_triviaPieces (i : Nat) (ts : List Trivia) : cmtClosed (triviaPieces i ts) = true := by
+  induction ts with
+  | nil => rfl
+  | cons t ts ih =>
+    simp only [triviaPieces, List.flatMap_cons] at ih ⊢
+    apply cmtClosed_append _ _ _ ih
+    cases t <;> simp [itemPieces, cmtClosed]
+
+theorem triviaPieces_lines (i : Nat) (ts : List Trivia) (h : CommaFree ts) :
+    ∃ lines : List (List Piece), triviaPieces i ts = lines.flatten ∧ ∀ ln ∈ lines, TriviaLine i ln := by
+  induction ts with
+  | nil => exact ⟨[], rfl, by simp⟩
+  | cons t ts ih =>
+    obtain ⟨lines, hl, hw⟩ := ih (commaFree_cons h)
+    simp only [triviaPieces, List.flatMap_cons] at hl ⊢
+    cases t with
+    | emptyLine =>
+      refine ⟨[.ws ['\n']] :: lines, by simp [itemPieces, hl], ?_⟩
+      intro ln hm
+      rcases List.mem_cons.mp hm with rfl | hm
+      · exact Or.inl rfl
+      · exact hw ln hm
+    | linebreak => exact ⟨lines, by simp [itemPieces, hl], hw⟩
+    | comma => exact absurd List.mem_cons_self h
+    | comment c =>
+      refine ⟨_ :: lines, by simp only [List.flatten_cons, hl]; rfl, ?_⟩
+      intro ln hm
+      rcases List.mem_cons.mp hm with rfl | hm
+      · refine Or.inr ⟨c.effIndent i, _, ?_, rfl⟩
+        unfold Comment.effIndent; split <;> simp
+      · exact hw ln hm
+
+theorem filterMap_cmt_triviaPieces (i : Nat) (ts : List Trivia) (h : CommaFree ts) :
+    (triviaPieces i ts).filterMap Piece.cmt? = commentTokens i ts := by
+  induction ts with
+  | nil => rfl
+  | cons t ts ih =>
+    have ih := ih (commaFree_cons h)
+    simp only [triviaPieces, List.flatMap_cons, commentTokens] at ih ⊢
+    rw [List.filterMap_append, ih]
+    cases t with
+    | comma => exact absurd List.mem_cons_self h
+    | _ => simp [itemPieces, Piece.cmt?, List.filterMap_cons]
+
+/-! ### newline termination -/
+
+theorem endsWithNL_append (a b : Text) :
+    endsWithNL (a ++ b) = if b.isEmpty then endsWithNL a else endsWithNL b := by
+  cases b with
+  | nil => simp
+  | cons x xs =>
+    have : (x :: xs).getLast? = some ((x :: xs).getLast (by simp)) := List.getLast?_eq_some_getLast (by simp)
+    simp [endsWithNL, List.getLast?_append, this]
+
+@[simp] theorem endsWithNL_nil : endsWithNL [] = false := rfl
+@[simp] theorem endsWithNL_concat (a : Text) (c : Char) : endsWithNL (a ++ [c]) = (c == '\n') := by
+  simp [endsWithNL]
+
+theorem itemText_nil_or_nl (i : Nat) (t : Trivia) (h : t ≠ .comma) :
+    itemText i t = [] ∨ endsWithNL (itemText i t) = true := by
+  cases t with
+  | emptyLine => right; rfl
+  | linebreak => left; rfl
+  | comma => exact absurd rfl h
+  | comment c => right; simp [itemText]
+
+theorem flatMap_itemText_nil_or_nl (i : Nat) (ts : List Trivia) (h : CommaFree ts) :
+    ts.flatMap (itemText i) = [] ∨ endsWithNL (ts.flatMap (itemText i)) = true := by
+  induction ts with
+  | nil => left; rfl
+  | cons t ts ih =>
+    rw [List.flatMap_cons, endsWithNL_append]
+    rcases ih (commaFree_cons h) with h0 | h1
+    · rw [h0]; simpa using itemText_nil_or_nl i t (fun e => h (e ▸ List.mem_cons_self))
+    · right
+      cases hf : ts.flatMap (itemText i) with
+      | nil => rw [hf] at h1; simp at h1
+      | cons x xs => rw [hf] at h1; simpa using h1
+
+theorem formatTrivia_nil_or_nl (ts : List Trivia) (i : Nat) (h : CommaFree ts) :
+    formatTrivia ts i = [] ∨ endsWithNL (formatTrivia ts i) = true := by
+  rw [formatTrivia_eq_flatMap ts i h]; exact flatMap_itemText_nil_or_nl i ts h
+
+theorem formatTrivia_append (a b : List Trivia) (i : Nat) (h : CommaFree (a ++ b)) :
+    formatTrivia (a ++ b) i = formatTrivia a i ++ formatTrivia b i := by
+  rw [formatTrivia_eq_flatMap _ i h, formatTrivia_eq_flatMap _ i (commaFree_append.mp h).1,
+    formatTrivia_eq_flatMap _ i (commaFree_append.mp h).2, List.flatMap_append]
+
+theorem formatTrivia_eq_nil_iff (ts : List Trivia) (i : Nat) (h : CommaFree ts) :
+    formatTrivia ts i = [] ↔ ts.all (· == .linebreak) = true := by
+  rw [formatTrivia_eq_flatMap ts i h]
+  induction ts with
+  | nil => simp
+  | cons t ts ih =>
+    rw [List.flatMap_cons, List.append_eq_nil_iff, ih (commaFree_cons h), List.all_cons, Bool.and_eq_true]
+    cases t with
+    | comma => exact absurd List.mem_cons_self h
+    | _ => simp [itemText]
+
+
+/-! ### splitLines / joinLines -/
+
+theorem splitLines_ne_nil : ∀ (s : Text), splitLines s ≠ []
+  | [] => by simp [splitLines]
+  | c :: cs => by
+    unfold splitLines
+    split
+    · simp
+    · split <;> simp
+
+theorem splitLines_cons_nl (s : Text) : splitLines ('\n' :: s) = [] :: splitLines s := by
+  rw [splitLines]
+  split
+  · rename_i h; exact absurd h (splitLines_ne_nil s)
+  · rename_i h; simp [h]
+
+theorem splitLines_cons_ne {c : Char} (hc : c ≠ '\n') (s : Text) :
+    splitLines (c :: s) = (c :: (splitLines s).headD []) :: (splitLines s).tail := by
+  rw [splitLines]
+  split
+  · rename_i h; exact absurd h (splitLines_ne_nil s)
+  · rename_i h; simp [h, hc]
+
+theorem splitLines_no_nl : ∀ (s : Text), containsNL s = false → splitLines s = [s]
+  | [], _ => rfl
+  | c :: cs, h => by
+    rw [containsNL_cons, Bool.or_eq_false_iff] at h
+    have hc : c ≠ '\n' := by simpa using h.1
+    rw [splitLines_cons_ne hc, splitLines_no_nl cs h.2]; rfl
+
+theorem splitLines_append_nl : ∀ (a b : Text), containsNL a = false →
+    splitLines (a ++ '\n' :: b) = a :: splitLines b
+  | [], b, _ => splitLines_cons_nl b
+  | c :: a, b, h => by
+    rw [containsNL_cons, Bool.or_eq_false_iff] at h
+    have hc : c ≠ '\n' := by simpa using h.1
+    rw [List.cons_append, splitLines_cons_ne hc, splitLines_append_nl a b h.2]; rfl
+
+theorem splitLines_lines_no_nl : ∀ (s : Text), ∀ l ∈ splitLines s, containsNL l = false
+  | [], l, h => by simp [splitLines] at h; subst h; rfl
+  | c :: cs, l, h => by
+    have ih := splitLines_lines_no_nl cs
+    by_cases hc : c = '\n'
+    · subst hc
+      rw [splitLines_cons_nl] at h
+      rcases List.mem_cons.mp h with rfl | h
+      · rfl
+      · exact ih l h
+    · rw [splitLines_cons_ne hc] at h
+      have hne := splitLines_ne_nil cs
+      cases hs : splitLines cs with
+      | nil => exact absurd hs hne
+      | cons x xs =>
+        rw [hs] at h ih
+        simp only [List.headD_cons, List.tail_cons] at h
+        rcases List.mem_cons.mp h with rfl | h
+        · rw [containsNL_cons, ih x List.mem_cons_self]; simp [hc]
+        · exact ih l (List.mem_cons_of_mem _ h)
+
+theorem joinLines_cons_cons (a b : Text) (ls : List Text) :
+    joinLines (a :: b :: ls) = a ++ '\n' :: joinLines (b :: ls) := rfl
+
+theorem joinLines_splitLines : ∀ (s : Text), joinLines (splitLines s) = s
+  | [] => rfl
+  | c :: cs => by
+    have ih := joinLines_splitLines cs
+    have hne := splitLines_ne_nil cs
+    by_cases hc : c = '\n'
+    · subst hc
+      rw [splitLines_cons_nl]
+      cases hs : splitLines cs with
+      | nil => exact absurd hs hne
+      | cons x xs => rw [joinLines_cons_cons, ← hs, ih]; rfl
+    · rw [splitLines_cons_ne hc]
+      cases hs : splitLines cs with
+      | nil => exact absurd hs hne
+      | cons x xs =>
+        rw [hs] at ih
+        simp only [List.headD_cons, List.tail_cons]
+        cases xs with
+        | nil => simp only [joinLines] at ih ⊢; rw [ih]
+        | cons y ys => rw [joinLines_cons_cons] at ih ⊢; rw [List.cons_append, ih]
+
+theorem splitLines_joinLines : ∀ (ls : List Text), ls ≠ [] → (∀ l ∈ ls, containsNL l = false) →
+    splitLines (joinLines ls) = ls
+  | [], h, _ => absurd rfl h
+  | [l], _, h => splitLines_no_nl l (h l List.mem_cons_self)
+  | a :: b :: ls, _, h => by
+    rw [joinLines_cons_cons, splitLines_append_nl a _ (h a List.mem_cons_self),
+      splitLines_joinLines (b :: ls) (by simp) (fun l hl => h l (List.mem_cons_of_mem _ hl))]
+
+theorem containsNL_joinLines_cons_cons (a b : Text) (ls : List Text) :
+    containsNL (joinLines (a :: b :: ls)) = true := by
+  rw [joinLines_cons_cons, containsNL_append, containsNL_cons]; simp
+
+/-! ### comments never end in a line break and are never empty -/
+
+theorem str_line_of_no_nl (c : Comment) (h : containsNL c.text = false) :
+    c.str = if c.shebang then '#' :: '!' :: c.text
+      else if c.text.isEmpty then ['#']
+      else (if c.spaceAfterHash then ['#', ' '] else ['#']) ++ c.text := by
+  unfold Comment.str
+  rw [splitLines_no_nl _ h]
+  by_cases hs : c.shebang = true
+  · simp [hs]
+  · simp only [hs, Bool.false_eq_true, if_false, List.map_cons, List.map_nil, joinLines]
+
+theorem token_ne_nil (c : Comment) (i : Nat) (h : c.tokenLike = true) : c.token i ≠ [] := by
+  unfold Comment.tokenLike at h
+  unfold Comment.token
+  cases hk : c.kind with
+  | line =>
+    rw [hk] at h
+    simp only [Bool.not_eq_eq_eq_not, Bool.not_true] at h
+    simp only [str_line_of_no_nl c h]
+    split
+    · simp
+    · split
+      · simp
+      · split <;> simp
+  | block doc inner =>
+    simp only
+    split
+    · split <;> split <;> simp
+    · split <;> simp
+
+theorem getLast?_ne_nl_of_no_nl (s : Text) (h : containsNL s = false) : s.getLast? ≠ some '\n' := by
+  intro hl
+  have := List.mem_of_getLast? hl
+  rw [containsNL_false_iff] at h
+  exact h this
+
+theorem endsWithNL_append_of_ne_nil (X Y : Text) (hY : Y ≠ []) : endsWithNL (X ++ Y) = endsWithNL Y := by
+  rw [endsWithNL_append]
+  cases Y with
+  | nil => exact absurd rfl hY
+  | cons y ys => rfl
+
+theorem closer_not_nl (i : Nat) (b : Bool) :
+    (if b then [' ', '*', '/'] else spaces i ++ ['*', '/']) ≠ [] ∧
+    endsWithNL (if b then [' ', '*', '/'] else spaces i ++ ['*', '/']) = false := by
+  cases b
+  · constructor
+    · simp
+    · rw [if_neg (by simp), endsWithNL_append_of_ne_nil _ _ (by simp)]; rfl
+  · exact ⟨by simp, rfl⟩
+
+theorem token_not_endsWithNL (c : Comment) (i : Nat) (h : c.tokenLike = true) :
+    endsWithNL (c.token i) = false := by
+  unfold Comment.tokenLike at h
+  unfold Comment.token
+  cases hk : c.kind with
+  | line =>
+    rw [hk] at h
+    simp only [Bool.not_eq_eq_eq_not, Bool.not_true] at h
+    simp only [str_line_of_no_nl c h]
+    have hl := getLast?_ne_nl_of_no_nl _ h
+    cases ht : c.text with
+    | nil => split <;> simp [endsWithNL]
+    | cons x xs =>
+      rw [ht] at hl
+      have e : ∀ p : Text, endsWithNL (p ++ x :: xs) = false := by
+        intro p
+        rw [endsWithNL_append]; simp only [List.isEmpty_cons, Bool.false_eq_true, if_false]
+        simpa [endsWithNL] using hl
+      split
+      · exact e ['#', '!']
+      · simp only [List.isEmpty_cons, Bool.false_eq_true, if_false]
+        split
+        · exact e ['#', ' ']
+        · exact e ['#']
+  | block doc inner =>
+    simp only
+    split
+    · have := closer_not_nl i (!endsWithNL c.text)
+      rw [endsWithNL_append_of_ne_nil _ _ this.1]; exact this.2
+    · rw [endsWithNL_append_of_ne_nil _ _ (by simp)]; rfl
+
+theorem rebuild_ne_nil (c : Comment) (i : Nat) (h : c.tokenLike = true) : c.rebuild i ≠ [] := by
+  rw [rebuild_eq_token]; simp [token_ne_nil c _ h]
+
+theorem rebuild_not_endsWithNL (c : Comment) (i : Nat) (h : c.tokenLike = true) :
+    endsWithNL (c.rebuild i) = false := by
+  rw [rebuild_eq_token, endsWithNL_append]
+  have := token_ne_nil c (c.effIndent i) h
+  cases ht : c.token (c.effIndent i) with
+  | nil => exact absurd ht this
+  | cons x xs => rw [← ht]; simp only [ht, List.isEmpty_cons, Bool.false_eq_true, if_false]; rw [← ht]; exact token_not_endsWithNL c _ h
+
+
+
+/-! ### apply_trailing_trivia -/
+
+theorem applyTrailingTrivia_prefix (r : Text) (after : List Trivia) (i : Nat) :
+    applyTrailingTrivia r after i = r ++ applyTrailingTrivia [] after i := by
+  unfold applyTrailingTrivia
+  split
+  · simp
+  · split <;> simp
+  · simp
+
+theorem trim_last_comment (init : List Trivia) (c : Comment) (s : Text) :
+    trimTrailingLayoutNewline (init ++ [.comment c]) (s ++ ['\n']) = s := by
+  simp [trimTrailingLayoutNewline, Trivia.isLayout]
+
+theorem trim_last_comment_nil (init : List Trivia) (c : Comment) :
+    trimTrailingLayoutNewline (init ++ [.comment c]) [] = [] := by
+  simp [trimTrailingLayoutNewline, Trivia.isLayout]
+
+theorem trim_last_layout (init : List Trivia) (t : Trivia) (ht : t.isLayout = true) (s : Text) :
+    trimTrailingLayoutNewline (init ++ [t]) s = s := by
+  simp [trimTrailingLayoutNewline, ht]
+
+theorem formatTrivia_concat_comment (init : List Trivia) (c : Comment) (i : Nat) (h : CommaFree init) :
+    formatTrivia (init ++ [.comment c]) i = (formatTrivia init i ++ c.rebuild i) ++ ['\n'] := by
+  have h' : CommaFree (init ++ [.comment c]) := commaFree_append.mpr ⟨h, by simp [CommaFree]⟩
+  rw [formatTrivia_append _ _ _ h', formatTrivia_eq_flatMap [.comment c] i (by simp [CommaFree])]
+  simp [itemText]
+
+theorem applyTrailingTrivia_eq (r : Text) (after : List Trivia) (i : Nat) (hne : after ≠ []) :
+    applyTrailingTrivia r after i =
+      match headInline after with
+      | some (c, rest) => r ++ [' '] ++ c.rebuild 0 ++ nlBlock (trimTrailingLayoutNewline after (formatTrivia rest i))
+      | none => r ++ nlBlock (trimTrailingLayoutNewline after (formatTrivia after i)) := by
+  unfold applyTrailingTrivia
+  split
+  · exact absurd rfl hne
+  · rename_i c rest
+    by_cases hc : c.inline = true
+    · simp [headInline, hc, nlBlock]
+    · simp [headInline, hc, nlBlock]
+  · rename_i hnc
+    have : headInline after = none := by
+      unfold headInline
+      split
+      · rename_i c rest; exact absurd rfl (hnc _ _)
+      · rfl
+    simp [this, nlBlock]
+
+theorem headInline_some {ts : List Trivia} {c0 : Comment} {rest : List Trivia}
+    (h : headInline ts = some (c0, rest)) : ts = .comment c0 :: rest ∧ c0.inline = true := by
+  unfold headInline at h
+  split at h
+  · split at h
+    · simp only [Option.some.injEq, Prod.mk.injEq] at h
+      obtain ⟨rfl, rfl⟩ := h
+      exact ⟨rfl, by assumption⟩
+    · simp at h
+  · simp at h
+
+theorem nlBlock_ne_nil {s : Text} (h : s ≠ []) : nlBlock s = '\n' :: s := by
+  cases s with
+  | nil => exact absurd rfl h
+  | cons x xs => rfl
+
+theorem trailing_last_comment (r : Text) (init : List Trivia) (c : Comment) (i : Nat) (h : CommaFree init)
+    (hc : c.tokenLike = true) :
+    applyTrailingTrivia r (init ++ [.comment c]) i =
+      match headInline (init ++ [.comment c]) with
+      | some (c0, _) =>
+        if init.isEmpty then r ++ ' ' :: c.rebuild 0
+        else r ++ ' ' :: c0.rebuild 0 ++ '\n' :: formatTrivia init.tail i ++ c.rebuild i
+      | none => r ++ '\n' :: formatTrivia init i ++ c.rebuild i := by
+  rw [applyTrailingTrivia_eq _ _ _ (by simp)]
+  cases hh : headInline (init ++ [.comment c]) with
+  | none =>
+    simp only
+    rw [formatTrivia_concat_comment init c i h, trim_last_comment,
+      nlBlock_ne_nil (by simp [rebuild_ne_nil c i hc])]
+    simp
+  | some p =>
+    obtain ⟨c0, rest⟩ := p
+    obtain ⟨h1, h2⟩ := headInline_some hh
+    simp only
+    cases init with
+    | nil =>
+      simp only [List.nil_append, List.cons.injEq, Trivia.comment.injEq] at h1
+      obtain ⟨rfl, rfl⟩ := h1
+      have : formatTrivia [] i = [] := rfl
+      rw [this, trim_last_comment_nil]
+      simp [nlBlock]
+    | cons t init' =>
+      simp only [List.cons_append, List.cons.injEq] at h1
+      obtain ⟨rfl, rfl⟩ := h1
+      rw [formatTrivia_concat_comment init' c i (commaFree_cons h), trim_last_comment,
+        nlBlock_ne_nil (by simp [rebuild_ne_nil c i hc])]
+      simp
+
+theorem trailing_last_layout (r : Text) (init : List Trivia) (t : Trivia) (ht : t.isLayout = true) (i : Nat) :
+    applyTrailingTrivia r (init ++ [t]) i =
+      match headInline (init ++ [t]) with
+      | some (c0, rest) => r ++ ' ' :: c0.rebuild 0 ++ nlBlock (formatTrivia rest i)
+      | none => r ++ nlBlock (formatTrivia (init ++ [t]) i) := by
+  rw [applyTrailingTrivia_eq _ _ _ (by simp)]
+  simp only [trim_last_layout init t ht]
+  split <;> simp
+
+
+theorem leavesOpen_concat_comment (init : List Trivia) (c : Comment) :
+    leavesOpenComment (init ++ [.comment c]) = true := by
+  simp [leavesOpenComment, lastIsComment, Trivia.isComment]
+
+theorem leavesOpen_concat_layout (init : List Trivia) (t : Trivia) (ht : t.isLayout = true) :
+    leavesOpenComment (init ++ [t]) = inlineHeadOnly (init ++ [t]) := by
+  have h1 : lastIsComment (init ++ [t]) = false := by
+    cases t <;> simp [Trivia.isLayout, lastIsComment, Trivia.isComment] at ht ⊢
+  unfold leavesOpenComment
+  rw [h1, Bool.false_or]
+
+theorem inlineHeadOnly_none {ts : List Trivia} (h : headInline ts = none) : inlineHeadOnly ts = false := by
+  simp [inlineHeadOnly, h]
+theorem inlineHeadOnly_some {ts : List Trivia} {c : Comment} {rest : List Trivia}
+    (h : headInline ts = some (c, rest)) : inlineHeadOnly ts = rest.all (· == .linebreak) := by
+  simp [inlineHeadOnly, h]
+
+theorem trailing_open_iff (after : List Trivia) (i : Nat) (h : CommaFree after)
+    (hc : ∀ c, .comment c ∈ after → c.tokenLike = true) :
+    (applyTrailingTrivia [] after i ≠ [] ∧ endsWithNL (applyTrailingTrivia [] after i) = false) ↔
+      leavesOpenComment after = true := by
+  rcases List.eq_nil_or_concat after with rfl | ⟨init, t, he⟩
+  · simp [applyTrailingTrivia, leavesOpenComment, lastIsComment, headInline, inlineHeadOnly]
+  · rw [List.concat_eq_append] at he; subst he
+    have hinit : CommaFree init := (commaFree_append.mp h).1
+    by_cases ht : t.isLayout = true
+    · rw [trailing_last_layout [] init t ht i, leavesOpen_concat_layout init t ht]
+      cases hh : headInline (init ++ [t]) with
+      | none =>
+        rw [inlineHeadOnly_none hh]
+        simp only [List.nil_append, Bool.false_eq_true, iff_false, not_and, Bool.not_eq_false]
+        intro hne
+        rcases formatTrivia_nil_or_nl (init ++ [t]) i h with h0 | h1
+        · rw [h0] at hne; simp [nlBlock] at hne
+        · have : formatTrivia (init ++ [t]) i ≠ [] := by intro h0; rw [h0] at h1; simp at h1
+          rw [nlBlock_ne_nil this]
+          rw [show '\n' :: formatTrivia (init ++ [t]) i = ['\n'] ++ formatTrivia (init ++ [t]) i from rfl,
+            endsWithNL_append_of_ne_nil _ _ this]
+          exact h1
+      | some p =>
+        obtain ⟨c0, rest⟩ := p
+        obtain ⟨h1, h2⟩ := headInline_some hh
+        have hrest : CommaFree rest := by rw [h1] at h; exact commaFree_cons h
+        have hc0 : c0.tokenLike = true := hc c0 (by rw [h1]; exact List.mem_cons_self)
+        simp only [List.nil_append]
+        rw [inlineHeadOnly_some hh, ← formatTrivia_eq_nil_iff rest i hrest]
+        constructor
+        · rintro ⟨_, hnl⟩
+          rcases formatTrivia_nil_or_nl rest i hrest with h0 | h1'
+          · exact h0
+          · exfalso
+            have hne : formatTrivia rest i ≠ [] := by intro h0; rw [h0] at h1'; simp at h1'
+            rw [nlBlock_ne_nil hne,
+              show ' ' :: c0.rebuild 0 ++ '\n' :: formatTrivia rest i
+                = (' ' :: c0.rebuild 0 ++ ['\n']) ++ formatTrivia rest i by simp,
+              endsWithNL_append_of_ne_nil _ _ hne, h1'] at hnl
+            simp at hnl
+        · intro h0
+          rw [h0]
+          simp only [nlBlock, List.isEmpty_nil, if_true, List.append_nil]
+          refine ⟨by simp, ?_⟩
+          rw [show ' ' :: c0.rebuild 0 = [' '] ++ c0.rebuild 0 from rfl,
+            endsWithNL_append_of_ne_nil _ _ (rebuild_ne_nil c0 0 hc0)]
+          exact rebuild_not_endsWithNL c0 0 hc0
+    · -- the last item is a comment
+      cases t with
+      | emptyLine => simp [Trivia.isLayout] at ht
+      | linebreak => simp [Trivia.isLayout] at ht
+      | comma => exact absurd (List.mem_append_right _ List.mem_cons_self) h
+      | comment c =>
+        have hct : c.tokenLike = true := hc c (List.mem_append_right _ List.mem_cons_self)
+        rw [leavesOpen_concat_comment, trailing_last_comment [] init c i hinit hct]
+        simp only [iff_true]
+        have e : ∀ (pre : Text) (j : Nat), pre ++ c.rebuild j ≠ [] ∧ endsWithNL (pre ++ c.rebuild j) = false := by
+          intro pre j
+          refine ⟨by simp [rebuild_ne_nil c j hct], ?_⟩
+          rw [endsWithNL_append_of_ne_nil _ _ (rebuild_ne_nil c j hct)]
+          exact rebuild_not_endsWithNL c j hct
+        split
+        · split
+          · exact e [' '] 0
+          · rename_i c0 _ _ _
+            have := e (' ' :: c0.rebuild 0 ++ '\n' :: formatTrivia init.tail i) i
+            simpa using this
+        · have := e ('\n' :: formatTrivia init i) i
+          simpa using this
+
+theorem trailing_open_suffix (after : List Trivia) (i : Nat) (h : CommaFree after)
+    (hc : ∀ c, .comment c ∈ after → c.tokenLike = true) (ho : leavesOpenComment after = true) :
+    ∃ c pre, .comment c ∈ after ∧ applyTrailingTrivia [] after i = pre ++ c.rebuild i := by
+  rcases List.eq_nil_or_concat after with rfl | ⟨init, t, he⟩
+  · simp [leavesOpenComment, lastIsComment, headInline, inlineHeadOnly] at ho
+  · rw [List.concat_eq_append] at he; subst he
+    have hinit : CommaFree init := (commaFree_append.mp h).1
+    by_cases ht : t.isLayout = true
+    · rw [leavesOpen_concat_layout init t ht] at ho
+      rw [trailing_last_layout [] init t ht i]
+      cases hh : headInline (init ++ [t]) with
+      | none => rw [inlineHeadOnly_none hh] at ho; simp at ho
+      | some p =>
+        obtain ⟨c0, rest⟩ := p
+        obtain ⟨h1, h2⟩ := headInline_some hh
+        rw [inlineHeadOnly_some hh] at ho
+        have hrest : CommaFree rest := by rw [h1] at h; exact commaFree_cons h
+        rw [← formatTrivia_eq_nil_iff rest i hrest] at ho
+        refine ⟨c0, [' '], by rw [h1]; exact List.mem_cons_self, ?_⟩
+        simp [ho, nlBlock, rebuild_inline c0 i h2]
+    · cases t with
+      | emptyLine => simp [Trivia.isLayout] at ht
+      | linebreak => simp [Trivia.isLayout] at ht
+      | comma => exact absurd (List.mem_append_right _ List.mem_cons_self) h
+      | comment c =>
+        have hct : c.tokenLike = true := hc c (List.mem_append_right _ List.mem_cons_self)
+        refine ⟨c, ?_⟩
+        rw [trailing_last_comment [] init c i hinit hct]
+        split
+        · split
+          · rename_i c0 rest hh hie
+            obtain ⟨h1, h2⟩ := headInline_some hh
+            have : init = [] := by simpa using hie
+            subst this
+            simp only [List.nil_append, List.cons.injEq, Trivia.comment.injEq] at h1
+            obtain ⟨rfl, rfl⟩ := h1
+            exact ⟨[' '], by simp, by simp [rebuild_inline _ i h2]⟩
+          · rename_i c0 _ _ _
+            exact ⟨' ' :: c0.rebuild 0 ++ '\n' :: formatTrivia init.tail i, by simp, by simp⟩
+        · exact ⟨'\n' :: formatTrivia init i, by simp, by simp⟩
+
+
+/-! ### format_interstitial_trivia -/
+
+theorem interGo_step (i : Nat) (nl : Bool) (t : Trivia) (rest : List Trivia) (acc : Text) :
+    formatInterstitialGo i nl (t :: rest) acc =
+      formatInterstitialGo i nl rest (acc ++ piecesText (interItemPieces i nl acc t)) := by
+  cases t with
+  | emptyLine =>
+    rw [formatInterstitialGo]
+    by_cases h : endsWithNL acc = true <;> simp [interItemPieces, interGlue, piecesText, Piece.text, h]
+  | linebreak =>
+    rw [formatInterstitialGo]
+    by_cases h : endsWithNL acc = true <;> simp [interItemPieces, interGlue, piecesText, Piece.text, h]
+  | comma => rw [formatInterstitialGo]; simp [interItemPieces, interGlue, piecesText, Piece.text]
+  | comment c =>
+    rw [formatInterstitialGo]
+    by_cases hi : c.inline = true
+    · have hr : c.rebuild 0 = c.token 0 := by
+        rw [rebuild_eq_token]; simp [Comment.effIndent, hi]
+      simp only [hi, if_true, hr]
+      congr 1
+      cases acc with
+      | nil => cases nl <;> simp [interItemPieces, interGlue, piecesText, Piece.text, hi]
+      | cons a as =>
+        by_cases h2 : ((a :: as).getLast? == some ' ' || endsWithNL (a :: as)) = true
+        · cases nl <;> simp [interItemPieces, interGlue, piecesText, Piece.text, hi, h2]
+        · cases nl <;> simp [interItemPieces, interGlue, piecesText, Piece.text, hi, h2]
+    · have hr : c.rebuild i = spaces i ++ c.token i := by
+        rw [rebuild_eq_token]; simp [Comment.effIndent, hi]
+      simp only [hi, Bool.false_eq_true, if_false, hr]
+      congr 1
+      by_cases h2 : (!acc.isEmpty && !endsWithNL acc) = true
+      · simp [interItemPieces, interGlue, piecesText, Piece.text, hi, h2]
+      · simp [interItemPieces, interGlue, piecesText, Piece.text, hi, h2]
+
+theorem interGo_pieces (i : Nat) (nl : Bool) : ∀ (ts : List Trivia) (acc : Text),
+    formatInterstitialGo i nl ts acc = acc ++ piecesText (interPieces i nl ts acc)
+  | [], acc => by simp [formatInterstitialGo, interPieces, piecesText]
+  | t :: rest, acc => by
+    rw [interGo_step, interGo_pieces i nl rest, interPieces, piecesText_append, List.append_assoc]
+
+theorem interPieces_comments (i : Nat) (nl : Bool) : ∀ (ts : List Trivia) (acc : Text),
+    (interPieces i nl ts acc).filterMap Piece.cmt? = commentTokens i ts
+  | [], acc => rfl
+  | t :: rest, acc => by
+    rw [interPieces, List.filterMap_append, interPieces_comments i nl rest]
+    cases t with
+    | comment c =>
+      by_cases hi : c.inline = true
+      · cases nl <;> simp [interItemPieces, hi, Piece.cmt?, commentTokens, Comment.effIndent, List.filterMap_cons]
+      · simp [interItemPieces, hi, Piece.cmt?, commentTokens, Comment.effIndent, List.filterMap_cons]
+    | _ => simp [interItemPieces, Piece.cmt?, commentTokens, List.filterMap_cons]
+
+/-- The rendering depends on the text rendered before only through its last character. -/
+theorem interItemPieces_append (i : Nat) (nl : Bool) (a b : Text) (hb : b ≠ []) (t : Trivia) :
+    interItemPieces i nl (a ++ b) t = interItemPieces i nl b t := by
+  have h1 : endsWithNL (a ++ b) = endsWithNL b := endsWithNL_append_of_ne_nil a b hb
+  have h2 : (a ++ b).getLast? = b.getLast? := by
+    cases b with
+    | nil => exact absurd rfl hb
+    | cons x xs => simp [List.getLast?_eq_some_getLast]
+  have h3 : (a ++ b).isEmpty = false := by cases b with
+    | nil => exact absurd rfl hb
+    | cons x xs => simp
+  have h4 : b.isEmpty = false := by cases b with
+    | nil => exact absurd rfl hb
+    | cons x xs => rfl
+  cases t <;> simp [interItemPieces, interGlue, h1, h2, h3, h4]
+
+theorem interPieces_append (i : Nat) (nl : Bool) : ∀ (ts : List Trivia) (a b : Text), b ≠ [] →
+    interPieces i nl ts (a ++ b) = interPieces i nl ts b
+  | [], _, _, _ => rfl
+  | t :: rest, a, b, hb => by
+    rw [interPieces, interPieces, interItemPieces_append i nl a b hb, List.append_assoc,
+      interPieces_append i nl rest a _ (by simp [hb])]
+
+theorem interGo_append (i : Nat) (nl : Bool) (ts : List Trivia) (a b : Text) (hb : b ≠ []) :
+    formatInterstitialGo i nl ts (a ++ b) = a ++ formatInterstitialGo i nl ts b := by
+  rw [interGo_pieces, interGo_pieces, interPieces_append i nl ts a b hb, List.append_assoc]
+
+/-- At a line start, without inline comments, interstitial rendering is the flatMap form of
+    `format_trivia`. -/
+theorem interGo_at_line_start (i : Nat) (nl : Bool) : ∀ (ts : List Trivia) (acc : Text),
+    CommaFree ts → (∀ t ∈ ts, t.isInlineComment = false) → endsWithNL acc = true →
+    formatInterstitialGo i nl ts acc = acc ++ ts.flatMap (itemText i)
+  | [], acc, _, _, _ => by simp [formatInterstitialGo]
+  | t :: rest, acc, hcf, hin, hacc => by
+    have hne : acc ≠ [] := by intro h; rw [h] at hacc; simp at hacc
+    have hemp : acc.isEmpty = false := by cases acc with
+      | nil => exact absurd rfl hne
+      | cons x xs => rfl
+    have hrest := fun acc' h' => interGo_at_line_start i nl rest acc' (commaFree_cons hcf)
+      (fun t ht => hin t (List.mem_cons_of_mem _ ht)) h'
+    cases t with
+    | emptyLine =>
+      rw [formatInterstitialGo, hrest _ (by simp [hacc])]; simp [hacc, itemText]
+    | linebreak =>
+      rw [formatInterstitialGo, hrest _ (by simp [hacc])]; simp [hacc, itemText]
+    | comma => exact absurd List.mem_cons_self hcf
+    | comment c =>
+      have hi : c.inline = false := by simpa [Trivia.isInlineComment] using hin _ List.mem_cons_self
+      rw [formatInterstitialGo]
+      simp only [hi, Bool.false_eq_true, if_false, hemp, hacc, Bool.not_false, Bool.not_true, Bool.and_false]
+      rw [hrest _ (endsWithNL_concat _ _)]; simp [itemText]
+
+
+/-! ### strip -/
+
+/-- no white space at either end -/
+def Stripped (p : Char → Bool) (s : Text) : Prop :=
+  (∀ c, s.head? = some c → p c = false) ∧ (∀ c, s.getLast? = some c → p c = false)
+
+def rstripBy (p : Char → Bool) (s : Text) : Text := (s.reverse.dropWhile p).reverse
+def stripBy (p : Char → Bool) (s : Text) : Text := rstripBy p (s.dropWhile p)
+
+theorem strip_eq_stripBy (s : Text) : strip s = stripBy isPyWhitespace s := rfl
+theorem stripSpaces_eq_stripBy (s : Text) : stripSpaces s = stripBy (· == ' ') s := rfl
+theorem rstripSpaces_eq_rstripBy (s : Text) : rstripSpaces s = rstripBy (· == ' ') s := rfl
+
+theorem head?_dropWhile_false (p : Char → Bool) (s : Text) (c : Char)
+    (h : (s.dropWhile p).head? = some c) : p c = false := by
+  have := List.head?_dropWhile_not p s
+  rw [h] at this
+  simpa using this
+
+theorem rstripBy_append_tail (p : Char → Bool) (s : Text) :
+    rstripBy p s ++ (s.reverse.takeWhile p).reverse = s := by
+  unfold rstripBy
+  rw [← List.reverse_append, List.takeWhile_append_dropWhile, List.reverse_reverse]
+
+theorem getLast?_rstripBy (p : Char → Bool) (s : Text) (c : Char)
+    (h : (rstripBy p s).getLast? = some c) : p c = false := by
+  unfold rstripBy at h
+  rw [List.getLast?_reverse] at h
+  exact head?_dropWhile_false p _ c h
+
+theorem head?_rstripBy (p : Char → Bool) (s : Text) (c : Char)
+    (h : (rstripBy p s).head? = some c) : s.head? = some c := by
+  have := rstripBy_append_tail p s
+  cases hr : rstripBy p s with
+  | nil => rw [hr] at h; simp at h
+  | cons x xs =>
+    rw [hr] at h this
+    rw [← this]; simpa using h
+
+theorem stripBy_stripped (p : Char → Bool) (s : Text) : Stripped p (stripBy p s) := by
+  constructor
+  · intro c h
+    exact head?_dropWhile_false p s c (head?_rstripBy p _ c h)
+  · intro c h
+    exact getLast?_rstripBy p _ c h
+
+theorem rstripBy_of_last (p : Char → Bool) (s : Text) (h : ∀ c, s.getLast? = some c → p c = false) :
+    rstripBy p s = s := by
+  unfold rstripBy
+  cases hr : s.reverse with
+  | nil => simp at hr; subst hr; rfl
+  | cons x xs =>
+    have : s.getLast? = some x := by rw [← List.head?_reverse, hr]; rfl
+    rw [List.dropWhile_cons_of_neg (by simp [h x this]), ← hr, List.reverse_reverse]
+
+theorem rstripBy_concat_pos (p : Char → Bool) (s : Text) (c : Char) (h : p c = true) :
+    rstripBy p (s ++ [c]) = rstripBy p s := by
+  simp [rstripBy, List.dropWhile_cons_of_pos h]
+
+theorem stripBy_pad (p : Char → Bool) (x : Text) (hx : Stripped p x) (a b : Char) (ha : p a = true)
+    (hb : p b = true) : stripBy p (a :: x ++ [b]) = x := by
+  unfold stripBy
+  rw [List.cons_append, List.dropWhile_cons_of_pos ha]
+  cases x with
+  | nil => simp [List.dropWhile_cons_of_pos hb, rstripBy]
+  | cons c x' =>
+    rw [List.cons_append, List.dropWhile_cons_of_neg (by simp [hx.1 c rfl]), ← List.cons_append,
+      rstripBy_concat_pos p _ b hb, rstripBy_of_last p _ hx.2]
+
+theorem stripBy_of_stripped (p : Char → Bool) (x : Text) (hx : Stripped p x) : stripBy p x = x := by
+  unfold stripBy
+  cases x with
+  | nil => rfl
+  | cons c x' =>
+    rw [List.dropWhile_cons_of_neg (by simp [hx.1 c rfl]), rstripBy_of_last p _ hx.2]
+
+theorem stripBy_sublist (p : Char → Bool) (s : Text) : (stripBy p s).Sublist s := by
+  unfold stripBy rstripBy
+  exact ((List.reverse_sublist.mpr (List.dropWhile_sublist p)).trans (by simp)).trans (List.dropWhile_sublist p)
+
+theorem containsNL_of_sublist {a b : Text} (h : a.Sublist b) (hb : containsNL b = false) :
+    containsNL a = false := by
+  rw [containsNL_false_iff] at hb ⊢
+  exact fun hm => hb (h.subset hm)
+
+/-- `strip` is idempotent (for Python's `isspace` class). -/
+theorem strip_idem (s : Text) : strip (strip s) = strip s :=
+  stripBy_of_stripped _ _ (stripBy_stripped _ s)
+
+
+/-! ### Comment.from_cst on line comments -/
+
+theorem fromText_shebang (col : Nat) (r : Text) :
+    Comment.fromText col ('#' :: '!' :: r) = { text := r, shebang := true } := by
+  simp [Comment.fromText, startsWith, List.isPrefixOf]
+
+theorem fromText_hash_space (col : Nat) (r : Text) :
+    Comment.fromText col ('#' :: ' ' :: r) = { text := r, spaceAfterHash := true } := by
+  simp [Comment.fromText, startsWith, List.isPrefixOf]
+
+theorem fromText_hash_other (col : Nat) (r : Text) (h1 : r.head? ≠ some '!') (h2 : r.head? ≠ some ' ') :
+    Comment.fromText col ('#' :: r) = { text := r, spaceAfterHash := false } := by
+  cases r with
+  | nil => simp [Comment.fromText, startsWith, List.isPrefixOf]
+  | cons x xs =>
+    have hx : ¬ '!' = x := fun e => h1 (by rw [e]; rfl)
+    have hy : ¬ ' ' = x := fun e => h2 (by rw [e]; rfl)
+    simp [Comment.fromText, startsWith, List.isPrefixOf, hx, hy]
+
+theorem hash_cases (r : Text) :
+    (∃ r', r = '!' :: r') ∨ (∃ r', r = ' ' :: r') ∨ (r.head? ≠ some '!' ∧ r.head? ≠ some ' ') := by
+  cases r with
+  | nil => exact Or.inr (Or.inr ⟨by simp, by simp⟩)
+  | cons x xs =>
+    by_cases hx : x = '!'
+    · exact Or.inl ⟨xs, by rw [hx]⟩
+    · by_cases hy : x = ' '
+      · exact Or.inr (Or.inl ⟨xs, by rw [hy]⟩)
+      · exact Or.inr (Or.inr ⟨by simpa using hx, by simpa using hy⟩)
+
+theorem fromText_hash_col (c1 c2 : Nat) (r : Text) :
+    Comment.fromText c1 ('#' :: r) = Comment.fromText c2 ('#' :: r) := by
+  rcases hash_cases r with ⟨r', rfl⟩ | ⟨r', rfl⟩ | ⟨h1, h2⟩
+  · rw [fromText_shebang, fromText_shebang]
+  · rw [fromText_hash_space, fromText_hash_space]
+  · rw [fromText_hash_other _ _ h1 h2, fromText_hash_other _ _ h1 h2]
+
+theorem line_comment_kind (col : Nat) (r : Text) :
+    (Comment.fromText col ('#' :: r)).kind = .line ∧ (Comment.fromText col ('#' :: r)).inline = false := by
+  rcases hash_cases r with ⟨r', rfl⟩ | ⟨r', rfl⟩ | ⟨h1, h2⟩
+  · rw [fromText_shebang]; exact ⟨rfl, rfl⟩
+  · rw [fromText_hash_space]; exact ⟨rfl, rfl⟩
+  · rw [fromText_hash_other _ _ h1 h2]; exact ⟨rfl, rfl⟩
+
+theorem line_comment_str (col : Nat) (r : Text) (hnl : containsNL r = false) :
+    (Comment.fromText col ('#' :: r)).str = if r = [' '] then ['#'] else '#' :: r := by
+  rcases hash_cases r with ⟨r', rfl⟩ | ⟨r', rfl⟩ | ⟨h1, h2⟩
+  · rw [fromText_shebang]; simp [Comment.str]
+  · rw [fromText_hash_space]
+    have hnl' : containsNL r' = false := by
+      rw [containsNL_cons] at hnl; simpa using hnl
+    rw [str_line_of_no_nl _ hnl']
+    cases r' <;> simp
+  · rw [fromText_hash_other _ _ h1 h2, str_line_of_no_nl _ hnl]
+    cases r with
+    | nil => simp
+    | cons x xs =>
+      have : x ≠ ' ' := fun e => h2 (by rw [e]; rfl)
+      simp [this]
+
+theorem line_comment_rebuild (col i : Nat) (r : Text) (hnl : containsNL r = false) :
+    (Comment.fromText col ('#' :: r)).rebuild i = spaces i ++ (if r = [' '] then ['#'] else '#' :: r) := by
+  have := line_comment_kind col r
+  rw [← line_comment_str col r hnl]
+  simp [Comment.rebuild, this.1, this.2]
+
+
+/-! ### Comment.from_cst on block comments: decomposition -/
+
+def blockDoc (t : Text) : Bool := startsWith ['/', '*', '*'] t
+def blockOpening (doc : Bool) : Text := if doc then ['/', '*', '*'] else ['/', '*']
+/-- the text between the delimiters -/
+def blockInner (t : Text) : Text :=
+  let inner0 := t.drop (if blockDoc t then 3 else 2)
+  if endsWith ['*', '/'] inner0 then inner0.take (inner0.length - 2) else inner0
+
+def mlFirst (inner : Text) : Text := stripSpaces ((splitLines inner).headD [])
+def mlRestRaw (inner : Text) : List Text :=
+  match ((splitLines inner).drop 1).reverse with
+  | [] => []
+  | l :: ls => (rstripSpaces l :: ls).reverse
+def isBlankLine (ln : Text) : Bool := (strip ln).isEmpty
+def minIndent (lines : List Text) : Nat :=
+  match (lines.filter fun ln => !isBlankLine ln).map leadingSpaces with
+  | [] => 0
+  | x :: xs => xs.foldl min x
+def mlBody (normalized : List Text) : List Text :=
+  if minIndent normalized > 0 then normalized.map (dropPrefixIf (spaces (minIndent normalized))) else normalized
+def mlNormalized (col : Nat) (inner : Text) : List Text := (mlRestRaw inner).map (dropPrefixIf (spaces col))
+
+theorem fromText_block (col : Nat) (t : Text) (h : startsWith ['/', '*'] t = true) :
+    Comment.fromText col t =
+      if containsNL (blockInner t) then
+        { text := joinLines (mlFirst (blockInner t) :: mlBody (mlNormalized col (blockInner t))),
+          kind := .block (blockDoc t) (some (minIndent (mlNormalized col (blockInner t)))) }
+      else { text := strip (blockInner t), kind := .block (blockDoc t) none } := by
+  unfold Comment.fromText
+  simp only [h, if_true]
+  rfl
+
+theorem endsWith_append_self (a p : Text) : endsWith p (a ++ p) = true := by
+  simp [endsWith]
+
+theorem take_append_sub (a p : Text) : (a ++ p).take ((a ++ p).length - p.length) = a := by
+  simp
+
+theorem blockDoc_opening (doc : Bool) (c : Char) (hc : c ≠ '*') (s : Text) :
+    blockDoc (blockOpening doc ++ c :: s) = doc := by
+  cases doc <;> simp [blockDoc, blockOpening, startsWith, List.isPrefixOf, Ne.symm hc]
+
+theorem startsWith_opening (doc : Bool) (s : Text) : startsWith ['/', '*'] (blockOpening doc ++ s) = true := by
+  cases doc <;> simp [blockOpening, startsWith, List.isPrefixOf]
+
+theorem blockInner_opening (doc : Bool) (c : Char) (hc : c ≠ '*') (s : Text) :
+    blockInner (blockOpening doc ++ c :: s ++ ['*', '/']) = c :: s := by
+  unfold blockInner
+  have hd : blockDoc (blockOpening doc ++ c :: s ++ ['*', '/']) = doc := by
+    rw [List.append_assoc]; exact blockDoc_opening doc c hc _
+  have : (blockOpening doc ++ c :: s ++ ['*', '/']).drop (if doc = true then 3 else 2) = (c :: s) ++ ['*', '/'] := by
+    cases doc <;> simp [blockOpening]
+  simp only [hd, this, endsWith_append_self, if_true]
+  exact take_append_sub (c :: s) ['*', '/']
+
+/-- single-line block comments: the rendered token is read back as the same comment -/
+theorem fromText_single_block (col : Nat) (doc : Bool) (x : Text) (hx : Stripped isPyWhitespace x)
+    (hnl : containsNL x = false) :
+    Comment.fromText col (blockOpening doc ++ [' '] ++ x ++ [' ', '*', '/']) =
+      { text := x, kind := .block doc none } := by
+  have e : blockOpening doc ++ [' '] ++ x ++ [' ', '*', '/'] = blockOpening doc ++ ' ' :: (x ++ [' ']) ++ ['*', '/'] := by
+    simp
+  rw [e, fromText_block _ _ (by rw [List.append_assoc]; exact startsWith_opening doc _),
+    blockInner_opening doc ' ' (by decide)]
+  have hnl' : containsNL (' ' :: (x ++ [' '])) = false := by
+    rw [containsNL_cons, containsNL_append, hnl]; rfl
+  simp only [hnl', Bool.false_eq_true, if_false]
+  rw [List.append_assoc, List.cons_append, blockDoc_opening doc ' ' (by decide), strip_eq_stripBy]
+  have := stripBy_pad isPyWhitespace x hx ' ' ' ' (by decide) (by decide)
+  rw [List.cons_append] at this
+  rw [this]
+
+
+/-! ### multi-line block comments: canonical form and fixed point -/
+
+def padLine (k : Nat) (ln : Text) : Text := if ln.isEmpty then [] else spaces k ++ ln
+
+structure CanonML (first : Text) (body : List Text) (m : Nat) : Prop where
+  first_nl : containsNL first = false
+  first_stripped : Stripped (· == ' ') first
+  body_ne : body ≠ []
+  body_nl : ∀ l ∈ body, containsNL l = false
+  last_rstripped : ∀ l, body.getLast? = some l → ∀ c, l.getLast? = some c → c ≠ ' '
+  indent : minIndent (body.map (padLine m)) = m
+
+theorem joinLines_flatMap (a : Text) : ∀ (L : List Text),
+    a ++ L.flatMap (fun l => '\n' :: l) = joinLines (a :: L)
+  | [] => by simp [joinLines]
+  | b :: L => by
+    rw [joinLines_cons_cons, ← joinLines_flatMap b L]; simp
+
+theorem joinLines_concat_append : ∀ (xs : List Text) (y w : Text),
+    joinLines (xs ++ [y]) ++ w = joinLines (xs ++ [y ++ w])
+  | [], y, w => by simp [joinLines]
+  | [x], y, w => by simp [joinLines]
+  | x :: x' :: xs, y, w => by
+    have := joinLines_concat_append (x' :: xs) y w
+    simp only [List.cons_append] at this ⊢
+    rw [joinLines_cons_cons, joinLines_cons_cons, List.append_assoc, List.cons_append, this]
+
+theorem containsNL_padLine (k : Nat) (l : Text) (h : containsNL l = false) : containsNL (padLine k l) = false := by
+  unfold padLine; split
+  · rfl
+  · rw [containsNL_append, containsNL_spaces, h]; rfl
+
+theorem spaces_add (a b : Nat) : spaces (a + b) = spaces a ++ spaces b := by
+  simp [spaces, List.replicate_append_replicate]
+
+theorem startsWith_append_self (p s : Text) : startsWith p (p ++ s) = true := by
+  simp [startsWith]
+
+theorem dropWhile_eq_nil_of_all (p : Char → Bool) : ∀ (l : Text), (∀ c ∈ l, p c = true) → l.dropWhile p = []
+  | [], _ => rfl
+  | x :: l, h => by
+    rw [List.dropWhile_cons_of_pos (h x List.mem_cons_self)]
+    exact dropWhile_eq_nil_of_all p l (fun c hc => h c (List.mem_cons_of_mem _ hc))
+
+theorem all_of_dropWhile_eq_nil (p : Char → Bool) : ∀ (l : Text), l.dropWhile p = [] → ∀ c ∈ l, p c = true
+  | [], _, c, hc => by simp at hc
+  | x :: l, h, c, hc => by
+    by_cases hx : p x = true
+    · rw [List.dropWhile_cons_of_pos hx] at h
+      rcases List.mem_cons.mp hc with rfl | hc
+      · exact hx
+      · exact all_of_dropWhile_eq_nil p l h c hc
+    · rw [List.dropWhile_cons_of_neg hx] at h; simp at h
+
+theorem getLast?_append_ne_nil (a b : Text) (hb : b ≠ []) : (a ++ b).getLast? = b.getLast? := by
+  cases b with
+  | nil => exact absurd rfl hb
+  | cons x xs => simp [List.getLast?_eq_some_getLast]
+
+theorem dropPrefixIf_append (p s : Text) : dropPrefixIf p (p ++ s) = s := by
+  unfold dropPrefixIf
+  cases p with
+  | nil => simp
+  | cons x xs =>
+    have := startsWith_append_self (x :: xs) s
+    simp only [List.isEmpty_cons, Bool.not_false, Bool.true_and, this, if_true]
+    simp
+
+theorem dropPrefixIf_nil (p : Text) : dropPrefixIf p [] = [] := by
+  unfold dropPrefixIf; split <;> simp
+
+theorem dropPrefixIf_padLine (i m : Nat) (l : Text) :
+    dropPrefixIf (spaces i) (padLine (i + m) l) = padLine m l := by
+  unfold padLine
+  split
+  · exact dropPrefixIf_nil _
+  · rw [spaces_add, List.append_assoc, dropPrefixIf_append]
+
+theorem dropPrefixIf_padLine_self (m : Nat) (l : Text) : dropPrefixIf (spaces m) (padLine m l) = l := by
+  unfold padLine
+  split
+  · rename_i h; rw [dropPrefixIf_nil]; simpa using h.symm
+  · exact dropPrefixIf_append _ _
+
+theorem padLine_zero (l : Text) : padLine 0 l = l := by
+  unfold padLine; split
+  · rename_i h; simpa using h.symm
+  · simp
+
+theorem rstripBy_spaces (k : Nat) : rstripBy (· == ' ') (spaces k) = [] := by
+  unfold rstripBy
+  have : (spaces k).reverse = spaces k := by simp [spaces]
+  rw [this]
+  have : (spaces k).dropWhile (· == ' ') = [] := by
+    apply dropWhile_eq_nil_of_all; intro c hc; simp [mem_spaces hc]
+  rw [this]; rfl
+
+theorem rstrip_rendered_last (k i : Nat) (bl : Text) (h : ∀ c, bl.getLast? = some c → c ≠ ' ') :
+    rstripSpaces (padLine k bl ++ (if bl.isEmpty then spaces i else [' '])) = padLine k bl := by
+  rw [rstripSpaces_eq_rstripBy]
+  cases bl with
+  | nil => simp [padLine, rstripBy_spaces]
+  | cons x xs =>
+    simp only [padLine, List.isEmpty_cons, Bool.false_eq_true, if_false]
+    rw [rstripBy_concat_pos _ _ ' ' (by decide)]
+    apply rstripBy_of_last
+    intro c hc
+    rw [getLast?_append_ne_nil _ _ (by simp)] at hc
+    simpa using h c hc
+
+
+def mlComment (first : Text) (body : List Text) (m : Nat) (doc : Bool) : Comment :=
+  { text := joinLines (first :: body), kind := .block doc (some m) }
+
+theorem canon_lines {first : Text} {body : List Text} {m : Nat} (h : CanonML first body m) :
+    splitLines (joinLines (first :: body)) = first :: body :=
+  splitLines_joinLines _ (by simp) (by
+    intro l hl
+    rcases List.mem_cons.mp hl with rfl | hl
+    · exact h.first_nl
+    · exact h.body_nl l hl)
+
+theorem canon_containsNL {first : Text} {body : List Text} {m : Nat} (h : CanonML first body m) :
+    containsNL (joinLines (first :: body)) = true := by
+  cases hb : body with
+  | nil => exact absurd hb h.body_ne
+  | cons b bs => exact containsNL_joinLines_cons_cons _ _ _
+
+theorem canon_startsWithNL {first : Text} {body : List Text} {m : Nat} (h : CanonML first body m) :
+    startsWithNL (joinLines (first :: body)) = first.isEmpty := by
+  cases hb : body with
+  | nil => exact absurd hb h.body_ne
+  | cons b bs =>
+    rw [joinLines_cons_cons]
+    cases hf : first with
+    | nil => rfl
+    | cons x xs =>
+      have : x ≠ '\n' := by
+        have := h.first_nl; rw [hf, containsNL_cons] at this; simp at this; exact this.1
+      simp [startsWithNL, this]
+
+theorem endsWithNL_joinLines_concat : ∀ (xs : List Text) (y : Text), containsNL y = false →
+    endsWithNL (joinLines (xs ++ [y])) = (!xs.isEmpty && y.isEmpty)
+  | [], y, h => by
+    simp only [List.nil_append, joinLines, List.isEmpty_nil, Bool.not_true, Bool.false_and]
+    have := getLast?_ne_nl_of_no_nl y h
+    simpa [endsWithNL] using this
+  | [x], y, h => by
+    simp only [List.cons_append, List.nil_append, joinLines]
+    cases y with
+    | nil => simp
+    | cons c cs =>
+      rw [show x ++ '\n' :: c :: cs = (x ++ ['\n']) ++ c :: cs by simp,
+        endsWithNL_append_of_ne_nil _ _ (by simp)]
+      have := getLast?_ne_nl_of_no_nl _ h
+      simpa [endsWithNL] using this
+  | x :: x' :: xs, y, h => by
+    have ih := endsWithNL_joinLines_concat (x' :: xs) y h
+    simp only [List.cons_append] at ih ⊢
+    rw [joinLines_cons_cons, show x ++ '\n' :: joinLines (x' :: (xs ++ [y])) = (x ++ ['\n']) ++ joinLines (x' :: (xs ++ [y])) by simp]
+    by_cases hj : joinLines (x' :: (xs ++ [y])) = []
+    · -- impossible only if everything is empty; then the text ends with the separator
+      rw [hj] at ih ⊢
+      simp only [List.append_nil, endsWithNL_concat]
+      simp at ih
+      cases y with
+      | nil => simp
+      | cons c cs => 
+        exfalso
+        cases xs with
+        | nil => simp [joinLines] at hj
+        | cons z zs => simp [joinLines_cons_cons] at hj
+    · rw [endsWithNL_append_of_ne_nil _ _ hj, ih]; simp
+
+/-- the shape of the rendered token of a canonical multi-line block comment -/
+theorem canon_token (first : Text) (bs : List Text) (bl : Text) (m : Nat) (doc b : Bool) (i : Nat)
+    (h : CanonML first (bs ++ [bl]) m) :
+    ({ mlComment first (bs ++ [bl]) m doc with inline := b } : Comment).token i =
+      blockOpening doc ++
+        joinLines (((if first.isEmpty then [] else [' ']) ++ first) ::
+          (bs.map (padLine (i + m)) ++ [padLine (i + m) bl ++ (if bl.isEmpty then spaces i else [' '])])) ++
+        ['*', '/'] := by
+  unfold Comment.token mlComment
+  simp only [canon_containsNL h, if_true, canon_lines h, canon_startsWithNL h, List.drop_succ_cons,
+    List.drop_zero, List.headD_cons, Option.getD_some]
+  have hends : endsWithNL (joinLines (first :: (bs ++ [bl]))) = bl.isEmpty := by
+    rw [← List.cons_append, endsWithNL_joinLines_concat _ _ (h.body_nl bl (by simp))]; simp
+  rw [hends]
+  have hfm : ((bs ++ [bl]).flatMap fun ln => if ln.isEmpty = true then ['\n'] else '\n' :: spaces (i + m) ++ ln)
+      = ((bs ++ [bl]).map (padLine (i + m))).flatMap (fun l => '\n' :: l) := by
+    rw [List.flatMap_map]
+    congr 1; funext ln
+    unfold padLine; split <;> simp
+  rw [hfm]
+  have e1 : (if first.isEmpty = true then blockOpening doc else blockOpening doc ++ [' '])
+      = blockOpening doc ++ (if first.isEmpty then [] else [' ']) := by split <;> simp
+  have e0 : (if doc = true then ['/', '*', '*'] else ['/', '*']) = blockOpening doc := rfl
+  rw [e0, e1]
+  simp only [List.append_assoc]
+  congr 1
+  have e2 : (if (!bl.isEmpty) = true then [' ', '*', '/'] else spaces i ++ ['*', '/'])
+      = (if bl.isEmpty then spaces i else [' ']) ++ ['*', '/'] := by
+    cases bl <;> simp
+  rw [e2, ← List.append_assoc, ← List.append_assoc, joinLines_flatMap, List.map_append, List.map_cons,
+    List.map_nil, ← List.cons_append, joinLines_concat_append]
+  conv => rhs; rw [← List.cons_append, joinLines_concat_append]
+  simp only [List.append_assoc]
+
+
+theorem stripSpaces_pad_first (first : Text) (h : Stripped (· == ' ') first) :
+    stripSpaces ((if first.isEmpty then [] else [' ']) ++ first) = first := by
+  rw [stripSpaces_eq_stripBy]
+  cases first with
+  | nil => rfl
+  | cons x xs =>
+    simp only [List.isEmpty_cons, Bool.false_eq_true, if_false, List.cons_append, List.nil_append]
+    unfold stripBy
+    rw [List.dropWhile_cons_of_pos (by decide)]
+    exact stripBy_of_stripped _ _ h
+
+theorem mlRestRaw_eq (a : Text) (rs : List Text) (y : Text) (ha : containsNL a = false)
+    (hrs : ∀ l ∈ rs, containsNL l = false) (hy : containsNL y = false) :
+    splitLines (joinLines (a :: (rs ++ [y]))) = a :: (rs ++ [y]) ∧
+    mlRestRaw (joinLines (a :: (rs ++ [y]))) = rs ++ [rstripSpaces y] := by
+  have hs : splitLines (joinLines (a :: (rs ++ [y]))) = a :: (rs ++ [y]) :=
+    splitLines_joinLines _ (by simp) (by
+      intro l hl
+      rcases List.mem_cons.mp hl with rfl | hl
+      · exact ha
+      · rcases List.mem_append.mp hl with hl | hl
+        · exact hrs l hl
+        · simp at hl; rw [hl]; exact hy)
+  refine ⟨hs, ?_⟩
+  unfold mlRestRaw
+  rw [hs]
+  simp
+
+theorem canon_fixed (first : Text) (bs : List Text) (bl : Text) (m : Nat) (doc b : Bool) (i : Nat)
+    (h : CanonML first (bs ++ [bl]) m) :
+    Comment.fromText i (({ mlComment first (bs ++ [bl]) m doc with inline := b } : Comment).token i)
+      = mlComment first (bs ++ [bl]) m doc := by
+  rw [canon_token first bs bl m doc b i h]
+  generalize hA : (if first.isEmpty then [] else [' ']) ++ first = A
+  generalize hy : padLine (i + m) bl ++ (if bl.isEmpty then spaces i else [' ']) = y
+  have hbl : containsNL bl = false := h.body_nl bl (by simp)
+  have hAnl : containsNL A = false := by
+    rw [← hA, containsNL_append, h.first_nl]; split <;> rfl
+  have hynl : containsNL y = false := by
+    rw [← hy, containsNL_append, containsNL_padLine _ _ hbl]; split <;> simp [containsNL_cons]
+  have hrs : ∀ l ∈ bs.map (padLine (i + m)), containsNL l = false := by
+    intro l hl
+    obtain ⟨l', hl', rfl⟩ := List.mem_map.mp hl
+    exact containsNL_padLine _ _ (h.body_nl l' (by simp [hl']))
+  obtain ⟨hsplit, hraw⟩ := mlRestRaw_eq A _ y hAnl hrs hynl
+  generalize hJ : joinLines (A :: (bs.map (padLine (i + m)) ++ [y])) = J at hsplit hraw ⊢
+  have hJnl : containsNL J = true := by
+    rw [← hJ]
+    cases hb : bs.map (padLine (i + m)) ++ [y] with
+    | nil => simp at hb
+    | cons z zs => exact containsNL_joinLines_cons_cons _ _ _
+  obtain ⟨c, s, hcs, hc⟩ : ∃ c s, J = c :: s ∧ c ≠ '*' := by
+    rw [← hJ]
+    cases hb : bs.map (padLine (i + m)) ++ [y] with
+    | nil => simp at hb
+    | cons z zs =>
+      rw [joinLines_cons_cons, ← hA]
+      cases first with
+      | nil => exact ⟨'\n', _, rfl, by decide⟩
+      | cons x xs => exact ⟨' ', _, rfl, by decide⟩
+  have hinner : blockInner (blockOpening doc ++ J ++ ['*', '/']) = J := by
+    rw [hcs]; exact blockInner_opening doc c hc s
+  have hdoc : blockDoc (blockOpening doc ++ J ++ ['*', '/']) = doc := by
+    rw [hcs, List.append_assoc, List.cons_append]; exact blockDoc_opening doc c hc _
+  rw [fromText_block _ _ (by rw [List.append_assoc]; exact startsWith_opening doc _), hinner, hdoc]
+  simp only [hJnl, if_true]
+  have hfirst : mlFirst J = first := by
+    unfold mlFirst; rw [hsplit, List.headD_cons, ← hA]; exact stripSpaces_pad_first first h.first_stripped
+  have hlast : rstripSpaces y = padLine (i + m) bl := by
+    rw [← hy]; exact rstrip_rendered_last (i + m) i bl (h.last_rstripped bl (by simp))
+  have hnorm : mlNormalized i J = (bs ++ [bl]).map (padLine m) := by
+    unfold mlNormalized
+    rw [hraw, hlast]
+    simp [List.map_append, dropPrefixIf_padLine, Function.comp_def]
+  have hbody : mlBody ((bs ++ [bl]).map (padLine m)) = bs ++ [bl] := by
+    unfold mlBody
+    rw [h.indent]
+    split
+    · rw [List.map_map]
+      conv => rhs; rw [← List.map_id (bs ++ [bl])]
+      apply List.map_congr_left
+      intro l _
+      simp [dropPrefixIf_padLine_self]
+    · have : m = 0 := by omega
+      subst this
+      conv => rhs; rw [← List.map_id (bs ++ [bl])]
+      apply List.map_congr_left
+      intro l _
+      simp [padLine_zero]
+  rw [hfirst, hnorm, hbody, h.indent]
+  rfl
+
+
+/-! ### `Comment.from_cst` produces canonical multi-line block comments -/
+
+theorem splitLines_length : ∀ (s : Text), (splitLines s).length = s.count '\n' + 1
+  | [] => rfl
+  | c :: cs => by
+    have ih := splitLines_length cs
+    by_cases hc : c = '\n'
+    · subst hc; rw [splitLines_cons_nl, List.length_cons, ih, List.count_cons_self]
+    · rw [splitLines_cons_ne hc, List.count_cons_of_ne hc, List.length_cons, List.length_tail, ih]; omega
+
+theorem isBlankLine_iff (l : Text) : isBlankLine l = true ↔ ∀ c ∈ l, isPyWhitespace c = true := by
+  unfold isBlankLine
+  rw [strip_eq_stripBy, List.isEmpty_iff]
+  constructor
+  · intro h
+    unfold stripBy at h
+    have h1 := rstripBy_append_tail isPyWhitespace (l.dropWhile isPyWhitespace)
+    rw [h, List.nil_append] at h1
+    have hall : ∀ c ∈ l.dropWhile isPyWhitespace, isPyWhitespace c = true := by
+      intro c hc
+      rw [← h1] at hc
+      exact takeWhile_all _ _ c (List.mem_reverse.mp hc)
+    have hnil : l.dropWhile isPyWhitespace = [] := by
+      cases hd : l.dropWhile isPyWhitespace with
+      | nil => rfl
+      | cons x xs =>
+        have := head?_dropWhile_false isPyWhitespace l x (by rw [hd]; rfl)
+        have := hall x (by rw [hd]; exact List.mem_cons_self)
+        simp_all
+    exact all_of_dropWhile_eq_nil _ _ hnil
+  · intro h
+    unfold stripBy
+    rw [dropWhile_eq_nil_of_all _ _ h]; rfl
+
+theorem foldl_min_le : ∀ (xs : List Nat) (x : Nat), xs.foldl min x ≤ x ∧ ∀ y ∈ xs, xs.foldl min x ≤ y
+  | [], x => ⟨Nat.le_refl _, by simp⟩
+  | z :: xs, x => by
+    obtain ⟨h1, h2⟩ := foldl_min_le xs (min x z)
+    refine ⟨Nat.le_trans h1 (Nat.min_le_left _ _), ?_⟩
+    intro y hy
+    rcases List.mem_cons.mp hy with rfl | hy
+    · exact Nat.le_trans h1 (Nat.min_le_right _ _)
+    · exact h2 y hy
+
+theorem minIndent_le (L : List Text) (l : Text) (hl : l ∈ L) (hb : isBlankLine l = false) :
+    minIndent L ≤ leadingSpaces l := by
+  unfold minIndent
+  have hm : leadingSpaces l ∈ (L.filter fun ln => !isBlankLine ln).map leadingSpaces :=
+    List.mem_map.mpr ⟨l, List.mem_filter.mpr ⟨hl, by simp [hb]⟩, rfl⟩
+  cases hf : (L.filter fun ln => !isBlankLine ln).map leadingSpaces with
+  | nil => rw [hf] at hm; simp at hm
+  | cons x xs =>
+    rw [hf] at hm
+    obtain ⟨h1, h2⟩ := foldl_min_le xs x
+    rcases List.mem_cons.mp hm with h | h
+    · rw [h]; exact h1
+    · exact h2 _ h
+
+theorem minIndent_map_congr (f : Text → Text) : ∀ (L : List Text),
+    (∀ l ∈ L, (isBlankLine l = false → f l = l) ∧ (isBlankLine l = true → isBlankLine (f l) = true)) →
+    minIndent (L.map f) = minIndent L := by
+  intro L h
+  have : (L.map f).filter (fun ln => !isBlankLine ln) = L.filter (fun ln => !isBlankLine ln) := by
+    induction L with
+    | nil => rfl
+    | cons x xs ih =>
+      have hx := h x List.mem_cons_self
+      have ih := ih (fun l hl => h l (List.mem_cons_of_mem _ hl))
+      rw [List.map_cons]
+      cases hb : isBlankLine x with
+      | false => rw [hx.1 hb, List.filter_cons_of_pos (by simp [hb]), List.filter_cons_of_pos (by simp [hb]), ih]
+      | true =>
+        rw [List.filter_cons_of_neg (by simp [hx.2 hb]), List.filter_cons_of_neg (by simp [hb]), ih]
+  unfold minIndent
+  rw [this]
+
+theorem eq_spaces_append_drop : ∀ (k : Nat) (l : Text), k ≤ leadingSpaces l → l = spaces k ++ l.drop k
+  | 0, l, _ => by simp
+  | k + 1, [], h => by simp [leadingSpaces] at h
+  | k + 1, c :: cs, h => by
+    unfold leadingSpaces at h
+    by_cases hc : c = ' '
+    · subst hc
+      rw [List.takeWhile_cons_of_pos (by decide), List.length_cons] at h
+      have := eq_spaces_append_drop k cs (by unfold leadingSpaces; omega)
+      rw [spaces_succ, List.drop_succ_cons, List.cons_append, ← this]
+    · rw [List.takeWhile_cons_of_neg (by simp [hc])] at h; simp at h
+
+theorem dropPrefixIf_suffix (p l : Text) : dropPrefixIf p l <:+ l := by
+  unfold dropPrefixIf; split
+  · exact List.drop_suffix _ _
+  · exact List.suffix_refl _
+
+theorem getLast?_of_suffix {a b : Text} (h : a <:+ b) {c : Char} (hc : a.getLast? = some c) :
+    b.getLast? = some c := by
+  obtain ⟨t, rfl⟩ := h
+  have : a ≠ [] := by intro e; rw [e] at hc; simp at hc
+  rw [getLast?_append_ne_nil _ _ this]; exact hc
+
+theorem isBlankLine_spaces (k : Nat) : isBlankLine (spaces k) = true := by
+  rw [isBlankLine_iff]; intro c hc; rw [mem_spaces hc]; decide
+
+/-- re-indenting after removing the common indentation gives back every non-blank line -/
+theorem reindent_line (m : Nat) (L : List Text) (hm : minIndent L = m) (l : Text) (hl : l ∈ L) :
+    (isBlankLine l = false → padLine m (dropPrefixIf (spaces m) l) = l) ∧
+    (isBlankLine l = true → isBlankLine (padLine m (dropPrefixIf (spaces m) l)) = true) := by
+  constructor
+  · intro hb
+    have hle : m ≤ leadingSpaces l := hm ▸ minIndent_le L l hl hb
+    have e := eq_spaces_append_drop m l hle
+    have hd : dropPrefixIf (spaces m) l = l.drop m := by
+      conv => lhs; rw [e]
+      exact dropPrefixIf_append _ _
+    rw [hd]
+    unfold padLine
+    split
+    · rename_i hemp
+      have : l.drop m = [] := by simpa using hemp
+      rw [this, List.append_nil] at e
+      rw [e, isBlankLine_spaces] at hb; simp at hb
+    · exact e.symm
+  · intro hb
+    rw [isBlankLine_iff] at hb ⊢
+    intro c hc
+    unfold padLine at hc
+    split at hc
+    · simp at hc
+    · rcases List.mem_append.mp hc with hc | hc
+      · rw [mem_spaces hc]; decide
+      · exact hb c ((dropPrefixIf_suffix _ _).subset hc)
+
+theorem mlRestRaw_spec (inner : Text) (h : containsNL inner = true) :
+    ∃ xs l, (splitLines inner).drop 1 = xs ++ [l] ∧ mlRestRaw inner = xs ++ [rstripSpaces l] := by
+  have hlen := splitLines_length inner
+  have hc : 0 < inner.count '\n' := List.count_pos_iff.mpr ((containsNL_iff inner).mp h)
+  have hne : (splitLines inner).drop 1 ≠ [] := by
+    intro e
+    have := congrArg List.length e
+    simp at this; omega
+  rcases List.eq_nil_or_concat ((splitLines inner).drop 1) with e | ⟨xs, l, e⟩
+  · exact absurd e hne
+  · rw [List.concat_eq_append] at e
+    refine ⟨xs, l, e, ?_⟩
+    unfold mlRestRaw
+    rw [e]; simp
+
+theorem fromText_canon (col : Nat) (inner : Text) (h : containsNL inner = true) :
+    CanonML (mlFirst inner) (mlBody (mlNormalized col inner)) (minIndent (mlNormalized col inner)) := by
+  obtain ⟨xs, l, hdrop, hraw⟩ := mlRestRaw_spec inner h
+  have hlines : ∀ x ∈ xs ++ [l], containsNL x = false := by
+    intro x hx
+    rw [← hdrop] at hx
+    exact splitLines_lines_no_nl inner x (List.mem_of_mem_drop hx)
+  -- the body is the raw rest with a suffix-taking map applied
+  obtain ⟨g, hg, hbody⟩ : ∃ g : Text → Text, (∀ x, g x <:+ x) ∧
+      mlBody (mlNormalized col inner) = (xs ++ [rstripSpaces l]).map g := by
+    unfold mlBody mlNormalized
+    rw [hraw]
+    split
+    · refine ⟨fun x => dropPrefixIf _ (dropPrefixIf (spaces col) x), ?_, by rw [List.map_map]; rfl⟩
+      intro x; exact (dropPrefixIf_suffix _ _).trans (dropPrefixIf_suffix _ _)
+    · exact ⟨_, fun x => dropPrefixIf_suffix _ x, rfl⟩
+  refine ⟨?_, ?_, ?_, ?_, ?_, ?_⟩
+  · -- first line has no line break
+    unfold mlFirst
+    rw [stripSpaces_eq_stripBy]
+    apply containsNL_of_sublist (stripBy_sublist _ _)
+    cases hs : splitLines inner with
+    | nil => rfl
+    | cons a as => exact splitLines_lines_no_nl inner a (by rw [hs]; exact List.mem_cons_self)
+  · unfold mlFirst; rw [stripSpaces_eq_stripBy]; exact stripBy_stripped _ _
+  · rw [hbody]; simp
+  · intro x hx
+    rw [hbody] at hx
+    obtain ⟨x', hx', rfl⟩ := List.mem_map.mp hx
+    apply containsNL_of_sublist (hg x').sublist
+    rcases List.mem_append.mp hx' with hx' | hx'
+    · exact hlines x' (List.mem_append_left _ hx')
+    · simp at hx'; rw [hx', rstripSpaces_eq_rstripBy]
+      have : (rstripBy (· == ' ') l).Sublist l := by
+        unfold rstripBy
+        exact (List.reverse_sublist.mpr (List.dropWhile_sublist _)).trans (by simp)
+      exact containsNL_of_sublist this (hlines l (by simp))
+  · intro x hx c hc
+    rw [hbody, List.map_append, List.map_cons, List.map_nil, List.getLast?_append] at hx
+    simp at hx
+    subst hx
+    have := getLast?_of_suffix (hg _) hc
+    rw [rstripSpaces_eq_rstripBy] at this
+    have := getLast?_rstripBy _ _ _ this
+    intro e; rw [e] at this; simp at this
+  · -- indentation invariant
+    generalize hN : mlNormalized col inner = N
+    unfold mlBody
+    split
+    · rw [List.map_map]
+      exact minIndent_map_congr _ N (fun x hx => reindent_line _ N rfl x hx)
+    · have : minIndent N = 0 := by omega
+      rw [this]
+      have : N.map (padLine 0) = N := by
+        conv => rhs; rw [← List.map_id N]
+        apply List.map_congr_left; intro x _; simp [padLine_zero]
+      rw [this]; assumption
+
+
+theorem token_inline_irrelevant (c : Comment) (b : Bool) (i : Nat) :
+    ({ c with inline := b } : Comment).token i = c.token i := by
+  unfold Comment.token Comment.str; rfl
+
+/-- Block comments: the token the renderer writes at column `i` is read back, at column `i`, as the
+    same comment — for every token text starting with `/*`, every column, every indentation. -/
+theorem block_token_fixed (c1 i : Nat) (t : Text) (h : startsWith ['/', '*'] t = true) :
+    Comment.fromText i ((Comment.fromText c1 t).token i) = Comment.fromText c1 t := by
+  rw [fromText_block c1 t h]
+  by_cases hnl : containsNL (blockInner t) = true
+  · simp only [hnl, if_true]
+    have hcanon := fromText_canon c1 (blockInner t) hnl
+    generalize mlFirst (blockInner t) = first at hcanon ⊢
+    generalize minIndent (mlNormalized c1 (blockInner t)) = m at hcanon ⊢
+    generalize mlBody (mlNormalized c1 (blockInner t)) = body at hcanon ⊢
+    rcases List.eq_nil_or_concat body with e | ⟨bs, bl, e⟩
+    · exact absurd e hcanon.body_ne
+    · rw [List.concat_eq_append] at e
+      subst e
+      have := canon_fixed first bs bl m (blockDoc t) false i hcanon
+      exact this
+  · simp only [hnl, Bool.false_eq_true, if_false]
+    have hnl' : containsNL (blockInner t) = false := by simpa using hnl
+    have hx : containsNL (strip (blockInner t)) = false :=
+      containsNL_of_sublist (stripBy_sublist _ _) hnl'
+    have htok : ({ text := strip (blockInner t), kind := .block (blockDoc t) none } : Comment).token i =
+        blockOpening (blockDoc t) ++ [' '] ++ strip (blockInner t) ++ [' ', '*', '/'] := by
+      simp [Comment.token, hx, blockOpening]
+    rw [htok]
+    exact fromText_single_block i (blockDoc t) _ (stripBy_stripped _ _) hx
+
+
+/-! ### newline termination of `format_trivia` for ALL lists (comma sentinels included) -/
+
+def GoInv (ts : List Trivia) (acc : Text) : Prop :=
+  acc = [] ∨ endsWithNL acc = true ∨ ∃ t rest, ts = t :: rest ∧ t ≠ .linebreak
+
+theorem formatTriviaGo_nl (i : Nat) : ∀ (ts : List Trivia) (acc : Text) (e : Bool), GoInv ts acc →
+    formatTriviaGo i ts acc e = [] ∨ endsWithNL (formatTriviaGo i ts acc e) = true
+  | [], acc, e, h => by
+    rw [formatTriviaGo]
+    rcases h with h | h | ⟨t, rest, h, _⟩
+    · exact Or.inl h
+    · exact Or.inr h
+    · cases h
+  | .emptyLine :: rest, acc, e, _ => by
+    rw [formatTriviaGo]
+    exact formatTriviaGo_nl i rest _ _ (Or.inr (Or.inl (endsWithNL_concat _ _)))
+  | .linebreak :: rest, acc, e, h => by
+    rw [formatTriviaGo]
+    apply formatTriviaGo_nl i rest
+    rcases h with h | h | ⟨t, r, he, hne⟩
+    · exact Or.inl h
+    · exact Or.inr (Or.inl h)
+    · cases he; exact absurd rfl hne
+  | .comment c :: rest, acc, e, _ => by
+    rw [formatTriviaGo]
+    exact formatTriviaGo_nl i rest _ _ (Or.inr (Or.inl (endsWithNL_concat _ _)))
+  | [.comma], acc, e, _ => by
+    rw [formatTriviaGo]
+    exact formatTriviaGo_nl i [] _ _ (Or.inr (Or.inl (endsWithNL_concat _ _)))
+  | .comma :: .comment c :: rest, acc, e, _ => by
+    rw [formatTriviaGo]
+    split
+    · exact formatTriviaGo_nl i (.comment c :: rest) _ _ (Or.inr (Or.inr ⟨_, _, rfl, by simp⟩))
+    · exact formatTriviaGo_nl i (.comment c :: rest) _ _ (Or.inr (Or.inr ⟨_, _, rfl, by simp⟩))
+  | .comma :: .linebreak :: rest, acc, e, _ => by
+    rw [formatTriviaGo]
+    exact formatTriviaGo_nl i (.linebreak :: rest) _ _ (Or.inr (Or.inl (endsWithNL_concat _ _)))
+  | .comma :: .emptyLine :: rest, acc, e, _ => by
+    rw [formatTriviaGo]
+    · exact formatTriviaGo_nl i (.emptyLine :: rest) _ _ (Or.inr (Or.inr ⟨_, _, rfl, by simp⟩))
+    all_goals simp
+  | .comma :: .comma :: rest, acc, e, _ => by
+    rw [formatTriviaGo]
+    · exact formatTriviaGo_nl i (.comma :: rest) _ _ (Or.inr (Or.inr ⟨_, _, rfl, by simp⟩))
+    all_goals simp
+
+theorem formatTrivia_nil_or_nl_all (ts : List Trivia) (i : Nat) :
+    formatTrivia ts i = [] ∨ endsWithNL (formatTrivia ts i) = true :=
+  formatTriviaGo_nl i ts [] true (Or.inl rfl)
 
 end Nima
